@@ -1,4 +1,7 @@
 import CCVerif.Lemmas.EvalFrag
+import CCVerif.Lemmas.EvalRecImp
+import CCVerif.Lemmas.EvalEnum
+import CCVerif.Lemmas.EvalTuple
 /-! The simulation: on the fragments of `Lemmas/EvalFrag.lean` the interpreter transcription `ev`
 answers the value of the reference semantics `denote` (well-formed at the type), or runs out of
 the model's fuel, or raises a documented error; it is never `stuck`.  One induction serves C01
@@ -11,21 +14,21 @@ variable {env : Env}
 
 theorem Res.val {fuel : Nat} {ρ : LEnv} {a : Ast} {P : St → Prop} {ty : Ty} {r : R V} {v : Val} {st' : St}
     (hr : r = .ok (.val v) st') (hp : P st') (hw : WF v ty) (hn : noAny ty = true)
-    (hd : denote (senvOf env) fuel ρ a = some (.val v)) : Res env fuel ρ a P (.ty ty) r :=
+    (hd : ∀ f', fuel ≤ f' → denote (senvOf env) f' ρ a = some (.val v)) : Res env fuel ρ a P (.ty ty) r :=
   Or.inl (show ∃ v st', r = .ok (.val v) st' ∧ P st' ∧ WF v ty ∧ noAny ty = true ∧
-    denote (senvOf env) fuel ρ a = some (.val v) from ⟨v, st', hr, hp, hw, hn, hd⟩)
+    ∀ f', fuel ≤ f' → denote (senvOf env) f' ρ a = some (.val v) from ⟨v, st', hr, hp, hw, hn, hd⟩)
 
 theorem Res.bool {fuel : Nat} {ρ : LEnv} {a : Ast} {P : St → Prop} {r : R V} {b : Bool} {st' : St}
     (hr : r = .ok (.bool b) st') (hp : P st')
-    (hd : denote (senvOf env) fuel ρ a = some (.bool b)) : Res env fuel ρ a P .logic r :=
-  Or.inl (show ∃ b st', r = .ok (.bool b) st' ∧ P st' ∧ denote (senvOf env) fuel ρ a = some (.bool b) from
+    (hd : ∀ f', fuel ≤ f' → denote (senvOf env) f' ρ a = some (.bool b)) : Res env fuel ρ a P .logic r :=
+  Or.inl (show ∃ b st', r = .ok (.bool b) st' ∧ P st' ∧ ∀ f', fuel ≤ f' → denote (senvOf env) f' ρ a = some (.bool b) from
     ⟨b, st', hr, hp, hd⟩)
 
 theorem Res.bad {fuel : Nat} {ρ : LEnv} {a : Ast} {P : St → Prop} {τ : ExprTy} {r : R V} (h : Bad r) :
     Res env fuel ρ a P τ r := Or.inr h
 
-theorem Res.zero (c : Ctx) (ρ : LEnv) (a : Ast) (P : St → Prop) (τ : ExprTy) (p : Option Tok) (st : St) :
-    Res env 0 ρ a P τ (ev c 0 a p st) := by
+theorem Res.zero (c : Ctx) (ρ : LEnv) (a a' : Ast) (P : St → Prop) (τ : ExprTy) (p : Option Tok) (st : St) :
+    Res env 0 ρ a P τ (ev c 0 a' p st) := by
   rw [ev_zero]; exact Res.bad (bad_outOfFuel _)
 
 theorem Covered.kid {ids : List (String × Nat)} {t : Tok} {d : TokData} {lo hi : Int} {ks : List Ast} {k : Ast}
@@ -68,22 +71,33 @@ theorem ev_sub_res (t : Tok) (xs ys : List Val) (st2 : St) :
 
 /-! ## children lists -/
 
-/-- all children at one type (`{e₁,…,eₙ}`) -/
-theorem evKids_sim_hom (c : Ctx) (Γ : TCtx) (ρ : LEnv) (f : Nat) (t : Tok) (τ : Ty) : ∀ (ks : List Ast),
-    (∀ k ∈ ks, ∀ st, Inv env c Γ ρ st → Res env f ρ k (Inv env c Γ ρ) (.ty τ) (ev c f k (some t) st)) →
-    ∀ acc st, Inv env c Γ ρ st →
-      (∃ vs st', evKids c f t ks acc st = .ok (acc ++ vs) st' ∧ Inv env c Γ ρ st' ∧ (∀ v ∈ vs, WF v τ) ∧
-        (ks ≠ [] → noAny τ = true) ∧ ks.mapM (fun k => dVal (denote (senvOf env) f ρ k)) = some vs) ∨
-      Bad (evKids c f t ks acc st)
-  | [], _, acc, st, hp => Or.inl ⟨[], st, by simp [evKids], hp, by simp, by simp, by simp⟩
-  | k :: ks, h, acc, st, hp => by
-    simp only [evKids]
-    rcases h k (by simp) st hp with ⟨v, st1, h1, p1, w1, n1, d1⟩ | ⟨fl, n, hb, hf⟩
+/-- the goal `∀ f', f + 1 ≤ f' → …` of a reference value, with `f' = g + 1` -/
+theorem forall_succ_fuel {P : Nat → Prop} {f : Nat} (h : ∀ g, f ≤ g → P (g + 1)) : ∀ f', f + 1 ≤ f' → P f' := by
+  intro f' hf'
+  obtain ⟨g, rfl⟩ : ∃ g, f' = g + 1 := ⟨f' - 1, by omega⟩
+  exact h g (by omega)
+
+macro "dsucc " g:ident hg:ident : tactic => `(tactic| refine forall_succ_fuel (fun $g $hg => ?_))
+
+/-- all children at one type (`{e₁,…,eₙ}`); pairs (source, normal form) -/
+theorem evKids_sim_hom (c : Ctx) (rz : Rz) (Γ : TCtx) (ρ : LEnv) (f : Nat) (t : Tok) (τ : Ty) : ∀ (kps : List (Ast × Ast)),
+    (∀ q ∈ kps, ∀ st, Inv env c rz Γ ρ st →
+      Res env f ρ q.1 (fun st' => st'.data = st.data ∧ st.iters ≤ st'.iters) (.ty τ) (ev c f q.2 (some t) st)) →
+    ∀ acc st, Inv env c rz Γ ρ st →
+      (∃ vs st', evKids c f t (kps.map (·.2)) acc st = .ok (acc ++ vs) st' ∧ st'.data = st.data ∧ st.iters ≤ st'.iters ∧
+        (∀ v ∈ vs, WF v τ) ∧ (kps ≠ [] → noAny τ = true) ∧
+        ∀ f', f ≤ f' → (kps.map (·.1)).mapM (fun k => dVal (denote (senvOf env) f' ρ k)) = some vs) ∨
+      Bad (evKids c f t (kps.map (·.2)) acc st)
+  | [], _, acc, st, hp => Or.inl ⟨[], st, by simp [evKids], rfl, Nat.le_refl _, by simp, by simp, by simp⟩
+  | q :: kps, h, acc, st, hp => by
+    simp only [List.map_cons, evKids]
+    rcases h q (by simp) st hp with ⟨v, st1, h1, ⟨p1, m1⟩, w1, n1, d1⟩ | ⟨fl, n, hb, hf⟩
     · simp only [h1, R.asVal]
-      rcases evKids_sim_hom c Γ ρ f t τ ks (fun k' hk' => h k' (by simp [hk'])) (acc ++ [v]) st1 p1 with
-        ⟨vs, st2, h2, p2, w2, _, d2⟩ | hbad
+      rcases evKids_sim_hom c rz Γ ρ f t τ kps (fun k' hk' => h k' (by simp [hk'])) (acc ++ [v]) st1 (hp.of_data p1) with
+        ⟨vs, st2, h2, p2, m2, w2, _, d2⟩ | hbad
       · left
-        refine ⟨v :: vs, st2, by simpa using h2, p2, ?_, fun _ => n1, by rw [List.mapM_cons, d1, d2]; rfl⟩
+        refine ⟨v :: vs, st2, by simpa using h2, by rw [p2, p1], by omega, ?_, fun _ => n1,
+          fun f' hf' => by rw [List.mapM_cons, d1 f' hf', d2 f' hf']; rfl⟩
         intro y hy
         rcases List.mem_cons.mp hy with rfl | m
         · exact w1
@@ -93,22 +107,24 @@ theorem evKids_sim_hom (c : Ctx) (Γ : TCtx) (ρ : LEnv) (f : Nat) (t : Tok) (τ
       exact Or.inr ⟨fl, n, rfl, hf⟩
 
 /-- children at their own types (tuples, products) -/
-theorem evKids_sim_het (c : Ctx) (Γ : TCtx) (ρ : LEnv) (f : Nat) (t : Tok) : ∀ (kts : List (Ast × Ty)),
-    (∀ q ∈ kts, ∀ st, Inv env c Γ ρ st → Res env f ρ q.1 (Inv env c Γ ρ) (.ty q.2) (ev c f q.1 (some t) st)) →
-    ∀ acc st, Inv env c Γ ρ st →
-      (∃ vs st', evKids c f t (kts.map (·.1)) acc st = .ok (acc ++ vs) st' ∧ Inv env c Γ ρ st' ∧
+theorem evKids_sim_het (c : Ctx) (rz : Rz) (Γ : TCtx) (ρ : LEnv) (f : Nat) (t : Tok) : ∀ (kts : List ((Ast × Ast) × Ty)),
+    (∀ q ∈ kts, ∀ st, Inv env c rz Γ ρ st →
+      Res env f ρ q.1.1 (fun st' => st'.data = st.data ∧ st.iters ≤ st'.iters) (.ty q.2) (ev c f q.1.2 (some t) st)) →
+    ∀ acc st, Inv env c rz Γ ρ st →
+      (∃ vs st', evKids c f t (kts.map (·.1.2)) acc st = .ok (acc ++ vs) st' ∧ st'.data = st.data ∧ st.iters ≤ st'.iters ∧
         List.Forall₂ (fun v ty => WF v ty ∧ noAny ty = true) vs (kts.map (·.2)) ∧
-        (kts.map (·.1)).mapM (fun k => dVal (denote (senvOf env) f ρ k)) = some vs) ∨
-      Bad (evKids c f t (kts.map (·.1)) acc st)
-  | [], _, acc, st, hp => Or.inl ⟨[], st, by simp [evKids], hp, .nil, by simp⟩
+        ∀ f', f ≤ f' → (kts.map (·.1.1)).mapM (fun k => dVal (denote (senvOf env) f' ρ k)) = some vs) ∨
+      Bad (evKids c f t (kts.map (·.1.2)) acc st)
+  | [], _, acc, st, hp => Or.inl ⟨[], st, by simp [evKids], rfl, Nat.le_refl _, .nil, by simp⟩
   | q :: kts, h, acc, st, hp => by
     simp only [List.map_cons, evKids]
-    rcases h q (by simp) st hp with ⟨v, st1, h1, p1, w1, n1, d1⟩ | ⟨fl, n, hb, hf⟩
+    rcases h q (by simp) st hp with ⟨v, st1, h1, ⟨p1, m1⟩, w1, n1, d1⟩ | ⟨fl, n, hb, hf⟩
     · simp only [h1, R.asVal]
-      rcases evKids_sim_het c Γ ρ f t kts (fun k' hk' => h k' (by simp [hk'])) (acc ++ [v]) st1 p1 with
-        ⟨vs, st2, h2, p2, w2, d2⟩ | hbad
+      rcases evKids_sim_het c rz Γ ρ f t kts (fun k' hk' => h k' (by simp [hk'])) (acc ++ [v]) st1 (hp.of_data p1) with
+        ⟨vs, st2, h2, p2, m2, w2, d2⟩ | hbad
       · left
-        exact ⟨v :: vs, st2, by simpa using h2, p2, .cons ⟨w1, n1⟩ w2, by rw [List.mapM_cons, d1, d2]; rfl⟩
+        exact ⟨v :: vs, st2, by simpa using h2, by rw [p2, p1], by omega, .cons ⟨w1, n1⟩ w2,
+          fun f' hf' => by rw [List.mapM_cons, d1 f' hf', d2 f' hf']; rfl⟩
       · exact Or.inr hbad
     · simp only [hb, R.asVal]
       exact Or.inr ⟨fl, n, rfl, hf⟩
@@ -188,162 +204,259 @@ theorem prod_foldl_of_empty : ∀ (fs : List (List Val)) (n : Nat), fs.any (·.i
       subst this; simp [prod_foldl_zero]
     · exact prod_foldl_of_empty fs _ h
 
+/-! ## blocks of `I{…}`: metadata and children -/
+
+/-- the metadata `CreateBlockMetadata` computes for a block -/
+def metaOf (c : Ctx) : Blk → BlockMeta
+  | .iter x _ _ _ _ _ _ _ _ => ⟨.ITERATE, (lookup x c.ids).getD 0⟩
+  | .asg x _ _ _ _ _ _ _ _ => ⟨.ASSIGN, (lookup x c.ids).getD 0⟩
+  | .guard _ g' => ⟨g'.id, 0⟩
+
+/-- the variable of a block has a slot; a condition is no block node -/
+def Blk.slotOK (c : Ctx) : Blk → Prop
+  | .iter x _ _ _ _ _ _ _ _ => ∃ var, lookup x c.ids = some var
+  | .asg x _ _ _ _ _ _ _ _ => ∃ var, lookup x c.ids = some var
+  | .guard _ g' => g'.id ≠ .ITERATE ∧ g'.id ≠ .ASSIGN
+
+theorem impMeta_core (c : Ctx) (b : Blk) (h : b.slotOK c) : impMeta c b.core = some (metaOf c b) := by
+  cases b with
+  | iter x dom dom' σ d lo hi dlo dhi =>
+    obtain ⟨var, hv⟩ := h
+    simp [impMeta, Blk.core, Ast.id, Ast.kids, firstVar_local, hv, metaOf, tok_beq]
+  | asg x ex ex' σ d lo hi dlo dhi =>
+    obtain ⟨var, hv⟩ := h
+    simp [impMeta, Blk.core, Ast.id, Ast.kids, firstVar_local, hv, metaOf, tok_beq]
+  | guard g g' =>
+    have e1 : (g'.id == Tok.ITERATE) = false := by simpa [tok_beq] using h.1
+    have e2 : (g'.id == Tok.ASSIGN) = false := by simpa [tok_beq] using h.2
+    simp [impMeta, Blk.core, e1, e2, metaOf]
+
+theorem impMetas_ok (c : Ctx) : ∀ (bs : List Blk), (∀ b ∈ bs, b.slotOK c) →
+    allSome ((bs.map Blk.core).map (impMeta c)) = some (bs.map (metaOf c))
+  | [], _ => rfl
+  | b :: bs, h => by
+    simp only [List.map_cons, impMeta_core c b (h b (by simp)), allSome,
+      impMetas_ok c bs (fun b' hb' => h b' (by simp [hb']))]
+    rfl
+
+theorem getElem?_split {α} (pre : List α) (b : α) (post : List α) : (pre ++ b :: post)[pre.length]? = some b := by
+  simp
+
+theorem slot_some {α} {d : List α} {i : Nat} (h : i < d.length) : ∃ v, d[i]? = some v :=
+  ⟨d[i], by simp [h]⟩
+
+/-- the slot guards of `I{…}`: one per ITERATE / ASSIGN block, holding the current value of the slot -/
+theorem impGuards_ok (data : List Val) : ∀ (metas : List BlockMeta),
+    (∀ m ∈ metas, (m.rootID = .ITERATE ∨ m.rootID = .ASSIGN) → m.arg < data.length) →
+    ∃ saved, impGuards data metas = some saved ∧ (∀ q ∈ saved, data[q.1]? = some q.2) ∧
+      ∀ m ∈ metas, (m.rootID = .ITERATE ∨ m.rootID = .ASSIGN) → m.arg ∈ saved.map (·.1)
+  | [], _ => ⟨[], rfl, by simp, by simp⟩
+  | m :: ms, h => by
+    obtain ⟨saved, h1, h2, h3⟩ := impGuards_ok data ms (fun m' hm' => h m' (by simp [hm']))
+    by_cases hm : (m.rootID == .ITERATE || m.rootID == .ASSIGN) = true
+    · have hm' : m.rootID = .ITERATE ∨ m.rootID = .ASSIGN := by simpa [tok_beq] using hm
+      obtain ⟨v, hv⟩ := slot_some (h m (by simp) hm')
+      refine ⟨(m.arg, v) :: saved, by simp [impGuards, hm, hv, h1], ?_, ?_⟩
+      · intro q hq
+        rcases List.mem_cons.mp hq with rfl | hq
+        · exact hv
+        · exact h2 q hq
+      · intro m' hm1 hr
+        rcases List.mem_cons.mp hm1 with rfl | hm1
+        · simp
+        · simp [h3 m' hm1 hr]
+    · refine ⟨saved, by simp [impGuards, hm, h1], h2, ?_⟩
+      intro m' hm1 hr
+      rcases List.mem_cons.mp hm1 with rfl | hm1
+      · have : (m'.rootID == .ITERATE || m'.rootID == .ASSIGN) = true := by simpa [tok_beq] using hr
+        exact absurd this hm
+      · exact h3 m' hm1 hr
+
+/-- every name of the nested quantifiers has a slot: so have the variables, the domain and the body -/
+theorem covered_nest {ids : List (String × Nat)} (t : Tok) (d : TokData) (lo hi : Int) (dom' body' : Ast) :
+    ∀ (xs : List EDecl), Covered ids (nest t d lo hi dom' body' xs) →
+      Covered ids body' ∧ (xs ≠ [] → Covered ids dom') ∧ ∀ q ∈ xs, ∃ i, lookup q.1 ids = some i
+  | [], h => ⟨h, fun h' => absurd rfl h', by simp⟩
+  | q :: xs, h => by
+    have hk : Covered ids (nest t d lo hi dom' body' xs) := Covered.kid (t := t) (d := d) (lo := lo) (hi := hi) h (by simp)
+    obtain ⟨h1, _, h3⟩ := covered_nest t d lo hi dom' body' xs hk
+    refine ⟨h1, fun _ => Covered.kid (t := t) (d := d) (lo := lo) (hi := hi) h (by simp), ?_⟩
+    intro q' hq'
+    rcases List.mem_cons.mp hq' with rfl | hq'
+    · exact h q'.1 (names_kid (k := declNode q') (by simp) (by simp [declNode, names, namesKids, tok_beq]))
+    · exact h3 q' hq'
+
 /-! ## the simulation -/
 
-/-- **the simulation**: on a fragment tree whose names all have slots (`Covered`), from a state that
-satisfies the invariant, `ev` returns the value `denote` assigns (well-formed at the type, invariant kept),
-or fails with the model's `outOfFuel`, or with a documented error -/
-theorem sim {G : TCtx} {lvl : Nat} (hG : GlobalsOK env G) (c : Ctx) {Γ : TCtx} {a : Ast} {τ : ExprTy}
-    (h : Frag env G lvl Γ a τ) : ∀ (fuel : Nat) (p : Option Tok) (st : St) (ρ : LEnv),
-    Inv env c Γ ρ st → Covered c.ids a → Res env fuel ρ a (Inv env c Γ ρ) τ (ev c fuel a p st) := by
+/-- **the simulation**: `a` is an expression of the fragment and `a'` its normal form; on `a'` (all names
+have slots: `Covered`), from a state that satisfies the invariant, `ev` returns the value `denote` assigns to
+`a` at the evaluator's fuel and at every larger one (well-formed at the type, invariant kept, the iteration
+counter not decreased), or fails with the model's `outOfFuel`, or with a documented error -/
+theorem sim {G : TCtx} {lvl : Nat} (hG : GlobalsOK env G) (c : Ctx) {rz : Rz} {Γ : TCtx} {a a' : Ast} {τ : ExprTy}
+    (h : FragR env G lvl rz Γ a a' τ) : ∀ (fuel : Nat) (p : Option Tok) (st : St) (ρ : LEnv),
+    Inv env c rz Γ ρ st → Covered c.ids a' →
+    Res env fuel ρ a (fun st' => st'.data = st.data ∧ st.iters ≤ st'.iters) τ (ev c fuel a' p st) := by
   induction h with
   | lit Γ n lo hi =>
     intro fuel p st ρ hinv hcov
     cases fuel with
     | zero => exact Res.zero ..
-    | succ f => exact Res.val (ev_lit ..) hinv (WF_int _ _) rfl (denote_lit ..)
-  | @arith Γ t a b d lo hi ht _ _ iha ihb =>
+    | succ f =>
+      exact Res.val (ev_lit ..) ⟨rfl, Nat.le_refl _⟩ (WF_int _ _) rfl (by dsucc g hg; exact denote_lit ..)
+  | @arith rz Γ t a b a' b' d lo hi ht _ _ iha ihb =>
     intro fuel p st ρ hinv hcov
     cases fuel with
     | zero => exact Res.zero ..
     | succ f =>
       rw [ev_arith ht]
-      rcases iha f (some t) st ρ hinv (hcov.kid (by simp)) with ⟨v1, st1, h1, p1, w1, _, d1⟩ | ⟨fl, k, hb, hf⟩
+      rcases iha f (some t) st ρ hinv (hcov.kid (by simp)) with ⟨v1, st1, h1, ⟨p1, m1⟩, w1, _, d1⟩ | ⟨fl, k, hb, hf⟩
       · obtain ⟨x, rfl⟩ := WF_Z_isInt w1
-        rcases ihb f (some t) st1 ρ p1 (hcov.kid (by simp)) with ⟨v2, st2, h2, p2, w2, _, d2⟩ | ⟨fl, k, hb, hf⟩
+        rcases ihb f (some t) st1 ρ (hinv.of_data p1) (hcov.kid (by simp)) with ⟨v2, st2, h2, ⟨p2, m2⟩, w2, _, d2⟩ | ⟨fl, k, hb, hf⟩
         · obtain ⟨y, rfl⟩ := WF_Z_isInt w2
           simp only [h1, h2, R.asInt]
           by_cases hok : int32ok (arithOp t x y) = true
           · simp only [hok, if_true]
-            exact Res.val rfl p2 (WF_int _ _) rfl (by rw [denote_arith ht, d1, d2]; rfl)
+            exact Res.val rfl ⟨by rw [p2, p1], by omega⟩ (WF_int _ _) rfl (by
+              dsucc g hg; rw [denote_arith ht, d1 g (by omega), d2 g (by omega)]; rfl)
           · simp only [hok]
             exact Res.bad (bad_err _ _ _ (Or.inl rfl))
         · exact Res.bad ⟨fl, k, by simp [h1, hb, R.asInt], hf⟩
       · exact Res.bad ⟨fl, k, by simp [hb, R.asInt], hf⟩
-  | @card Γ a τ d lo hi _ ih =>
+  | @card rz Γ a a' τ d lo hi _ ih =>
     intro fuel p st ρ hinv hcov
     cases fuel with
     | zero => exact Res.zero ..
     | succ f =>
       rw [ev_card]
-      rcases ih f (some .CARD) st ρ hinv (hcov.kid (by simp)) with ⟨v1, st1, h1, p1, w1, _, d1⟩ | ⟨fl, k, hb, hf⟩
+      rcases ih f (some .CARD) st ρ hinv (hcov.kid (by simp)) with ⟨v1, st1, h1, ⟨p1, m1⟩, w1, _, d1⟩ | ⟨fl, k, hb, hf⟩
       · obtain ⟨xs, rfl⟩ := WF_coll_isSet w1
         simp only [h1, R.asSet]
-        exact Res.val rfl p1 (WF_int _ _) rfl (by rw [denote_card, d1]; rfl)
+        exact Res.val rfl ⟨p1, m1⟩ (WF_int _ _) rfl (by dsucc g hg; rw [denote_card, d1 g (by omega)]; rfl)
       · exact Res.bad ⟨fl, k, by simp [hb, R.asSet], hf⟩
-  | @cmp Γ t a b d lo hi ht _ _ iha ihb =>
+  | @cmp rz Γ t a b a' b' d lo hi ht _ _ iha ihb =>
     intro fuel p st ρ hinv hcov
     cases fuel with
     | zero => exact Res.zero ..
     | succ f =>
       rw [ev_intCmp ht]
-      rcases iha f (some t) st ρ hinv (hcov.kid (by simp)) with ⟨v1, st1, h1, p1, w1, _, d1⟩ | ⟨fl, k, hb, hf⟩
+      rcases iha f (some t) st ρ hinv (hcov.kid (by simp)) with ⟨v1, st1, h1, ⟨p1, m1⟩, w1, _, d1⟩ | ⟨fl, k, hb, hf⟩
       · obtain ⟨x, rfl⟩ := WF_Z_isInt w1
-        rcases ihb f (some t) st1 ρ p1 (hcov.kid (by simp)) with ⟨v2, st2, h2, p2, w2, _, d2⟩ | ⟨fl, k, hb, hf⟩
+        rcases ihb f (some t) st1 ρ (hinv.of_data p1) (hcov.kid (by simp)) with ⟨v2, st2, h2, ⟨p2, m2⟩, w2, _, d2⟩ | ⟨fl, k, hb, hf⟩
         · obtain ⟨y, rfl⟩ := WF_Z_isInt w2
           simp only [h1, h2, R.asInt]
-          exact Res.bool rfl p2 (by rw [denote_intCmp ht, d1, d2]; rfl)
+          exact Res.bool rfl ⟨by rw [p2, p1], by omega⟩ (by
+            dsucc g hg; rw [denote_intCmp ht, d1 g (by omega), d2 g (by omega)]; rfl)
         · exact Res.bad ⟨fl, k, by simp [h1, hb, R.asInt], hf⟩
       · exact Res.bad ⟨fl, k, by simp [hb, R.asInt], hf⟩
-  | @eq Γ t a b τ d lo hi ht _ _ iha ihb =>
+  | @eq rz Γ t a b a' b' τ d lo hi ht _ _ iha ihb =>
     intro fuel p st ρ hinv hcov
     cases fuel with
     | zero => exact Res.zero ..
     | succ f =>
       rw [ev_eq ht]
-      rcases iha f (some t) st ρ hinv (hcov.kid (by simp)) with ⟨v1, st1, h1, p1, w1, _, d1⟩ | ⟨fl, k, hb, hf⟩
-      · rcases ihb f (some t) st1 ρ p1 (hcov.kid (by simp)) with ⟨v2, st2, h2, p2, w2, _, d2⟩ | ⟨fl, k, hb, hf⟩
+      rcases iha f (some t) st ρ hinv (hcov.kid (by simp)) with ⟨v1, st1, h1, ⟨p1, m1⟩, w1, _, d1⟩ | ⟨fl, k, hb, hf⟩
+      · rcases ihb f (some t) st1 ρ (hinv.of_data p1) (hcov.kid (by simp)) with ⟨v2, st2, h2, ⟨p2, m2⟩, w2, _, d2⟩ | ⟨fl, k, hb, hf⟩
         · simp only [h1, h2]
-          exact Res.bool rfl p2 (by rw [denote_eq ht, d1, d2]; simp [dVal, cmp_beq_eq])
+          exact Res.bool rfl ⟨by rw [p2, p1], by omega⟩ (by
+            dsucc g hg; rw [denote_eq ht, d1 g (by omega), d2 g (by omega)]; simp [dVal, cmp_beq_eq])
         · exact Res.bad ⟨fl, k, by simp [h1, hb], hf⟩
       · exact Res.bad ⟨fl, k, by simp [hb], hf⟩
-  | @not Γ a d lo hi _ ih =>
+  | @not rz Γ a a' d lo hi _ ih =>
     intro fuel p st ρ hinv hcov
     cases fuel with
     | zero => exact Res.zero ..
     | succ f =>
       rw [ev_not]
-      rcases ih f (some .NOT) st ρ hinv (hcov.kid (by simp)) with ⟨b1, st1, h1, p1, d1⟩ | ⟨fl, k, hb, hf⟩
+      rcases ih f (some .NOT) st ρ hinv (hcov.kid (by simp)) with ⟨b1, st1, h1, ⟨p1, m1⟩, d1⟩ | ⟨fl, k, hb, hf⟩
       · simp only [h1, R.asBool]
-        exact Res.bool rfl p1 (by rw [denote_not, d1]; rfl)
+        exact Res.bool rfl ⟨p1, m1⟩ (by dsucc g hg; rw [denote_not, d1 g (by omega)]; rfl)
       · exact Res.bad ⟨fl, k, by simp [hb, R.asBool], hf⟩
-  | @conn Γ t a b d lo hi ht _ _ iha ihb =>
+  | @conn rz Γ t a b a' b' d lo hi ht _ _ iha ihb =>
     intro fuel p st ρ hinv hcov
     cases fuel with
     | zero => exact Res.zero ..
     | succ f =>
       rw [ev_conn ht]
-      rcases iha f (some t) st ρ hinv (hcov.kid (by simp)) with ⟨b1, st1, h1, p1, d1⟩ | ⟨fl, k, hb, hf⟩
+      rcases iha f (some t) st ρ hinv (hcov.kid (by simp)) with ⟨b1, st1, h1, ⟨p1, m1⟩, d1⟩ | ⟨fl, k, hb, hf⟩
       · simp only [h1, R.asBool]
         by_cases hs1 : ((t == .AND && !b1) || (t == .OR && b1)) = true
         · simp only [hs1, if_true]
-          exact Res.bool rfl p1 (by rw [denote_conn ht, d1]; simp only [dBool]; rw [kConn_short ht b1 _ hs1]; rfl)
+          exact Res.bool rfl ⟨p1, m1⟩ (by
+            dsucc g hg; rw [denote_conn ht, d1 g (by omega)]; simp only [dBool]; rw [kConn_short ht b1 _ hs1]; rfl)
         · simp only [hs1, Bool.false_eq_true, if_false]
           by_cases hs2 : (t == .IMPLICATION && !b1) = true
           · simp only [hs2, if_true]
-            exact Res.bool rfl p1 (by rw [denote_conn ht, d1]; simp only [dBool]; rw [kConn_short_imp ht b1 _ hs2]; rfl)
+            exact Res.bool rfl ⟨p1, m1⟩ (by
+              dsucc g hg; rw [denote_conn ht, d1 g (by omega)]; simp only [dBool]; rw [kConn_short_imp ht b1 _ hs2]; rfl)
           · simp only [hs2, Bool.false_eq_true, if_false]
-            rcases ihb f (some t) st1 ρ p1 (hcov.kid (by simp)) with ⟨b2, st2, h2, p2, d2⟩ | ⟨fl, k, hb, hf⟩
+            rcases ihb f (some t) st1 ρ (hinv.of_data p1) (hcov.kid (by simp)) with ⟨b2, st2, h2, ⟨p2, m2⟩, d2⟩ | ⟨fl, k, hb, hf⟩
             · simp only [h2]
-              exact Res.bool rfl p2 (by rw [denote_conn ht, d1, d2]; simp only [dBool]; rw [kConn_full ht]; rfl)
+              exact Res.bool rfl ⟨by rw [p2, p1], by omega⟩ (by
+                dsucc g hg; rw [denote_conn ht, d1 g (by omega), d2 g (by omega)]; simp only [dBool]
+                rw [kConn_full ht]; rfl)
             · exact Res.bad ⟨fl, k, by simp [hb], hf⟩
       · exact Res.bad ⟨fl, k, by simp [hb, R.asBool], hf⟩
-  | @mem Γ t a b τ d lo hi ht hbid _ _ iha ihb =>
+  | @mem rz Γ t a b a' b' τ d lo hi ht hbid hbid' _ _ iha ihb =>
     intro fuel p st ρ hinv hcov
     cases fuel with
     | zero => exact Res.zero ..
     | succ f =>
-      rw [ev_mem ht _ _ _ _ _ _ _ hbid]
-      rcases iha f (some t) st ρ hinv (hcov.kid (by simp)) with ⟨v1, st1, h1, p1, w1, n1, d1⟩ | ⟨fl, k, hb, hf⟩
-      · rcases ihb f (some t) st1 ρ p1 (hcov.kid (by simp)) with ⟨v2, st2, h2, p2, w2, _, d2⟩ | ⟨fl, k, hb, hf⟩
+      rw [ev_mem ht _ _ _ _ _ _ _ hbid']
+      rcases iha f (some t) st ρ hinv (hcov.kid (by simp)) with ⟨v1, st1, h1, ⟨p1, m1⟩, w1, n1, d1⟩ | ⟨fl, k, hb, hf⟩
+      · rcases ihb f (some t) st1 ρ (hinv.of_data p1) (hcov.kid (by simp)) with ⟨v2, st2, h2, ⟨p2, m2⟩, w2, _, d2⟩ | ⟨fl, k, hb, hf⟩
         · obtain ⟨ys, rfl⟩ := WF_coll_isSet w2
           simp only [h1, h2, R.asVal, R.asSet]
-          exact Res.bool rfl p2 (by
-            rw [denote_mem ht _ _ _ _ _ _ _ _ hbid, d1, d2]
+          exact Res.bool rfl ⟨by rw [p2, p1], by omega⟩ (by
+            dsucc g hg
+            rw [denote_mem ht _ _ _ _ _ _ _ _ hbid, d1 g (by omega), d2 g (by omega)]
             simp [dVal, dSet, members, mem_agrees_WF n1 w1 w2])
         · exact Res.bad ⟨fl, k, by simp [h1, hb, R.asVal, R.asSet], hf⟩
       · exact Res.bad ⟨fl, k, by simp [hb, R.asVal], hf⟩
-  | @memPow Γ t a b τ d d' lo hi lo' hi' ht _ _ iha ihb =>
+  | @memPow rz Γ t a b a' b' τ d d' lo hi lo' hi' ht _ _ iha ihb =>
     intro fuel p st ρ hinv hcov
     cases fuel with
     | zero => exact Res.zero ..
     | succ f =>
       rw [ev_memPow ht]
-      have hcb : Covered c.ids b := (hcov.kid (k := .node .BOOLEAN d' lo' hi' [b]) (by simp)).kid (by simp)
-      rcases iha f (some t) st ρ hinv (hcov.kid (by simp)) with ⟨v1, st1, h1, p1, w1, n1, d1⟩ | ⟨fl, k, hb, hf⟩
-      · rcases ihb f (some .BOOLEAN) st1 ρ p1 hcb with ⟨v2, st2, h2, p2, w2, _, d2⟩ | ⟨fl, k, hb, hf⟩
+      have hcb : Covered c.ids b' := (hcov.kid (k := .node .BOOLEAN d' lo' hi' [b']) (by simp)).kid (by simp)
+      rcases iha f (some t) st ρ hinv (hcov.kid (by simp)) with ⟨v1, st1, h1, ⟨p1, m1⟩, w1, n1, d1⟩ | ⟨fl, k, hb, hf⟩
+      · rcases ihb f (some .BOOLEAN) st1 ρ (hinv.of_data p1) hcb with ⟨v2, st2, h2, ⟨p2, m2⟩, w2, _, d2⟩ | ⟨fl, k, hb, hf⟩
         · obtain ⟨xs, rfl⟩ := WF_coll_isSet w1
           obtain ⟨base, rfl⟩ := WF_coll_isSet w2
           simp only [h1, h2, R.asVal]
           split
           · exact Res.bad (bad_err _ _ _ (Or.inr (Or.inl rfl)))
-          · exact Res.bool rfl p2 (by
-              rw [denote_memPow ht, d1, d2]
+          · exact Res.bool rfl ⟨by rw [p2, p1], by omega⟩ (by
+              dsucc g hg
+              rw [denote_memPow ht, d1 g (by omega), d2 g (by omega)]
               simp [dVal, dSet, members, subsetEq_agrees_WF (by simpa [noAny_coll] using n1) w1 w2])
         · exact Res.bad ⟨fl, k, by simp [h1, hb, R.asVal], hf⟩
       · exact Res.bad ⟨fl, k, by simp [hb, R.asVal], hf⟩
-  | @sub Γ t a b τ d lo hi ht _ _ iha ihb =>
+  | @sub rz Γ t a b a' b' τ d lo hi ht _ _ iha ihb =>
     intro fuel p st ρ hinv hcov
     cases fuel with
     | zero => exact Res.zero ..
     | succ f =>
       rw [ev_sub ht]
-      rcases iha f (some t) st ρ hinv (hcov.kid (by simp)) with ⟨v1, st1, h1, p1, w1, n1, d1⟩ | ⟨fl, k, hb, hf⟩
-      · rcases ihb f (some t) st1 ρ p1 (hcov.kid (by simp)) with ⟨v2, st2, h2, p2, w2, _, d2⟩ | ⟨fl, k, hb, hf⟩
+      rcases iha f (some t) st ρ hinv (hcov.kid (by simp)) with ⟨v1, st1, h1, ⟨p1, m1⟩, w1, n1, d1⟩ | ⟨fl, k, hb, hf⟩
+      · rcases ihb f (some t) st1 ρ (hinv.of_data p1) (hcov.kid (by simp)) with ⟨v2, st2, h2, ⟨p2, m2⟩, w2, _, d2⟩ | ⟨fl, k, hb, hf⟩
         · obtain ⟨xs, rfl⟩ := WF_coll_isSet w1
           obtain ⟨ys, rfl⟩ := WF_coll_isSet w2
           simp only [h1, h2, R.asVal]
           rw [ev_sub_res]
-          exact Res.bool rfl p2 (by
-            rw [denote_sub ht, d1, d2]
+          exact Res.bool rfl ⟨by rw [p2, p1], by omega⟩ (by
+            dsucc g hg
+            rw [denote_sub ht, d1 g (by omega), d2 g (by omega)]
             simp [dVal, dSet, members, sub_agrees ht (by simpa [noAny_coll] using n1) w1 w2])
         · exact Res.bad ⟨fl, k, by simp [h1, hb, R.asVal], hf⟩
       · exact Res.bad ⟨fl, k, by simp [hb, R.asVal], hf⟩
-  | @empty Γ τ d lo hi hn =>
+  | @empty rz Γ τ d lo hi hn =>
     intro fuel p st ρ hinv hcov
     cases fuel with
     | zero => exact Res.zero ..
-    | succ f => exact Res.val (ev_empty ..) hinv (WF_empty τ) (by simpa [noAny_coll] using hn) (denote_empty ..)
+    | succ f =>
+      exact Res.val (ev_empty ..) ⟨rfl, Nat.le_refl _⟩ (WF_empty τ) (by simpa [noAny_coll] using hn)
+        (by dsucc g hg; exact denote_empty ..)
   | intset Γ d lo hi =>
     intro fuel p st ρ hinv hcov
     cases fuel with
@@ -351,141 +464,172 @@ theorem sim {G : TCtx} {lvl : Nat} (hG : GlobalsOK env G) (c : Ctx) {Γ : TCtx} 
     | succ f =>
       rw [ev_intset]
       exact Res.bad (bad_err _ _ _ (Or.inr (Or.inr (Or.inr (Or.inr (Or.inr rfl))))))
-  | @enum Γ τ d lo hi ks hne _ ih =>
+  | @enum rz Γ τ d lo hi ks ks' hne hlen _ ih =>
     intro fuel p st ρ hinv hcov
     cases fuel with
     | zero => exact Res.zero ..
     | succ f =>
       rw [ev_enum]
-      rcases evKids_sim_hom c Γ ρ f .NT_ENUMERATION τ ks
-          (fun k hk st' hp' => ih k hk f (some .NT_ENUMERATION) st' ρ hp' (hcov.kid hk)) [] st hinv with
-        ⟨vs, st1, h1, p1, w1, n1, d1⟩ | ⟨fl, k, hb, hf⟩
-      · simp only [h1, List.nil_append]
-        exact Res.val rfl p1 (mkSet_WF w1) (by simpa [noAny_coll] using n1 hne) (by rw [denote_enum, d1]; rfl)
-      · exact Res.bad ⟨fl, k, by simp [hb], hf⟩
-  | @tuple Γ d lo hi ks ts hl2 hlen _ ih =>
+      have hk1 : (ks.zip ks').map (·.1) = ks := by rw [List.map_fst_zip]; omega
+      have hk2 : (ks.zip ks').map (·.2) = ks' := by rw [List.map_snd_zip]; omega
+      have hne' : ks.zip ks' ≠ [] := by
+        intro e
+        have : (ks.zip ks').length = 0 := by rw [e]; rfl
+        rw [List.length_zip] at this
+        cases ks with
+        | nil => exact hne rfl
+        | cons _ _ => simp at hlen; simp [← hlen] at this
+      rcases evKids_sim_hom c rz Γ ρ f .NT_ENUMERATION τ (ks.zip ks')
+          (fun q hq st' hp' => ih q hq f (some .NT_ENUMERATION) st' ρ hp'
+            (hcov.kid (List.of_mem_zip hq).2)) [] st hinv with
+        ⟨vs, st1, h1, p1, m1, w1, n1, d1⟩ | ⟨fl, k, hb, hf⟩
+      · rw [hk2] at h1
+        simp only [h1, List.nil_append]
+        exact Res.val rfl ⟨p1, m1⟩ (mkSet_WF w1) (by simpa [noAny_coll] using n1 hne') (by
+          dsucc g hg
+          have := d1 g (by omega)
+          rw [hk1] at this
+          rw [denote_enum, this]; rfl)
+      · rw [hk2] at hb
+        exact Res.bad ⟨fl, k, by simp [hb], hf⟩
+  | @tuple rz Γ d lo hi ks ks' ts hl2 hlen hlen' _ ih =>
     intro fuel p st ρ hinv hcov
     cases fuel with
     | zero => exact Res.zero ..
     | succ f =>
       rw [ev_tuple]
-      have hk1 : (ks.zip ts).map (·.1) = ks := by
-        rw [List.map_fst_zip]; omega
-      have hk2 : (ks.zip ts).map (·.2) = ts := by
-        rw [List.map_snd_zip]; omega
-      rcases evKids_sim_het c Γ ρ f .NT_TUPLE (ks.zip ts)
-          (fun q hq st' hp' => ih q hq f (some .NT_TUPLE) st' ρ hp' (hcov.kid (List.of_mem_zip hq).1)) [] st hinv with
-        ⟨vs, st1, h1, p1, w1, d1⟩ | ⟨fl, k, hb, hf⟩
-      · rw [hk1] at h1 d1
+      have hz : (ks.zip ks').length = ks.length := by rw [List.length_zip]; omega
+      have hk0 : ((ks.zip ks').zip ts).map (·.1) = ks.zip ks' := by rw [List.map_fst_zip]; omega
+      have hk1 : ((ks.zip ks').zip ts).map (·.1.1) = ks := by
+        have : ((ks.zip ks').zip ts).map (·.1.1) = (((ks.zip ks').zip ts).map (·.1)).map (·.1) := by
+          rw [List.map_map]; rfl
+        rw [this, hk0, List.map_fst_zip]; omega
+      have hk1' : ((ks.zip ks').zip ts).map (·.1.2) = ks' := by
+        have : ((ks.zip ks').zip ts).map (·.1.2) = (((ks.zip ks').zip ts).map (·.1)).map (·.2) := by
+          rw [List.map_map]; rfl
+        rw [this, hk0, List.map_snd_zip]; omega
+      have hk2 : ((ks.zip ks').zip ts).map (·.2) = ts := by rw [List.map_snd_zip]; omega
+      rcases evKids_sim_het c rz Γ ρ f .NT_TUPLE ((ks.zip ks').zip ts)
+          (fun q hq st' hp' => ih q hq f (some .NT_TUPLE) st' ρ hp'
+            (hcov.kid (List.of_mem_zip (List.of_mem_zip hq).1).2)) [] st hinv with
+        ⟨vs, st1, h1, p1, m1, w1, d1⟩ | ⟨fl, k, hb, hf⟩
+      · rw [hk1'] at h1
         rw [hk2] at w1
         obtain ⟨wfs, hna⟩ := forall₂_WFs w1
         have hvl : vs.length ≥ 2 := by rw [WFs_length wfs]; omega
         obtain ⟨e, w⟩ := mkTuple_WF wfs hvl
         simp only [h1, List.nil_append, e]
-        refine Res.val rfl p1 w (by simpa [noAny_tuple] using hna) ?_
-        rw [denote_tuple, d1]
+        refine Res.val rfl ⟨p1, m1⟩ w (by simpa [noAny_tuple] using hna) ?_
+        dsucc g hg
+        have := d1 g (by omega)
+        rw [hk1] at this
+        rw [denote_tuple, this]
         match vs, hvl with
         | _ :: _ :: _, _ => rfl
-      · rw [hk1] at hb
+      · rw [hk1'] at hb
         exact Res.bad ⟨fl, k, by simp [hb], hf⟩
-  | @setOp Γ t a b τ d lo hi ht _ _ iha ihb =>
+  | @setOp rz Γ t a b a' b' τ d lo hi ht _ _ iha ihb =>
     intro fuel p st ρ hinv hcov
     cases fuel with
     | zero => exact Res.zero ..
     | succ f =>
       rw [ev_setOp ht]
-      rcases iha f (some t) st ρ hinv (hcov.kid (by simp)) with ⟨v1, st1, h1, p1, w1, n1, d1⟩ | ⟨fl, k, hb, hf⟩
-      · rcases ihb f (some t) st1 ρ p1 (hcov.kid (by simp)) with ⟨v2, st2, h2, p2, w2, _, d2⟩ | ⟨fl, k, hb, hf⟩
+      rcases iha f (some t) st ρ hinv (hcov.kid (by simp)) with ⟨v1, st1, h1, ⟨p1, m1⟩, w1, n1, d1⟩ | ⟨fl, k, hb, hf⟩
+      · rcases ihb f (some t) st1 ρ (hinv.of_data p1) (hcov.kid (by simp)) with ⟨v2, st2, h2, ⟨p2, m2⟩, w2, _, d2⟩ | ⟨fl, k, hb, hf⟩
         · obtain ⟨xs, rfl⟩ := WF_coll_isSet w1
           obtain ⟨ys, rfl⟩ := WF_coll_isSet w2
           simp only [h1, h2, R.asVal]
-          exact Res.val rfl p2 (setOp_WF w1 w2) n1 (by
-            rw [denote_setOp ht, d1, d2]
+          exact Res.val rfl ⟨by rw [p2, p1], by omega⟩ (setOp_WF w1 w2) n1 (by
+            dsucc g hg
+            rw [denote_setOp ht, d1 g (by omega), d2 g (by omega)]
             simp [dVal, dSet, members, setOp_agrees ht (by simpa [noAny_coll] using n1) w1 w2])
         · exact Res.bad ⟨fl, k, by simp [h1, hb, R.asVal], hf⟩
       · exact Res.bad ⟨fl, k, by simp [hb, R.asVal], hf⟩
-  | @bool Γ a τ d lo hi _ ih =>
+  | @bool rz Γ a a' τ d lo hi _ ih =>
     intro fuel p st ρ hinv hcov
     cases fuel with
     | zero => exact Res.zero ..
     | succ f =>
       rw [ev_bool]
-      rcases ih f (some .BOOL) st ρ hinv (hcov.kid (by simp)) with ⟨v1, st1, h1, p1, w1, n1, d1⟩ | ⟨fl, k, hb, hf⟩
+      rcases ih f (some .BOOL) st ρ hinv (hcov.kid (by simp)) with ⟨v1, st1, h1, ⟨p1, m1⟩, w1, n1, d1⟩ | ⟨fl, k, hb, hf⟩
       · simp only [h1, R.asVal]
-        exact Res.val rfl p1 (singleton_WF w1) (by simpa [noAny_coll] using n1) (by
-          rw [denote_bool, d1]; simp [dVal, setOf_singleton])
+        exact Res.val rfl ⟨p1, m1⟩ (singleton_WF w1) (by simpa [noAny_coll] using n1) (by
+          dsucc g hg; rw [denote_bool, d1 g (by omega)]; simp [dVal, setOf_singleton])
       · exact Res.bad ⟨fl, k, by simp [hb, R.asVal], hf⟩
-  | @debool Γ a τ d lo hi _ ih =>
+  | @debool rz Γ a a' τ d lo hi _ ih =>
     intro fuel p st ρ hinv hcov
     cases fuel with
     | zero => exact Res.zero ..
     | succ f =>
       rw [ev_debool]
-      rcases ih f (some .DEBOOL) st ρ hinv (hcov.kid (by simp)) with ⟨v1, st1, h1, p1, w1, n1, d1⟩ | ⟨fl, k, hb, hf⟩
+      rcases ih f (some .DEBOOL) st ρ hinv (hcov.kid (by simp)) with ⟨v1, st1, h1, ⟨p1, m1⟩, w1, n1, d1⟩ | ⟨fl, k, hb, hf⟩
       · obtain ⟨xs, rfl⟩ := WF_coll_isSet w1
         simp only [h1, R.asSet]
         match xs, w1, d1 with
         | [], _, _ => exact Res.bad (bad_err _ _ _ (Or.inr (Or.inr (Or.inr (Or.inr (Or.inl rfl))))))
         | [x], w1, d1 =>
-          exact Res.val rfl p1 (w1.mem (by simp)) (by simpa [noAny_coll] using n1) (by
-            rw [denote_debool, d1]; rfl)
+          exact Res.val rfl ⟨p1, m1⟩ (w1.mem (by simp)) (by simpa [noAny_coll] using n1) (by
+            dsucc g hg; rw [denote_debool, d1 g (by omega)]; rfl)
         | _ :: _ :: _, _, _ => exact Res.bad (bad_err _ _ _ (Or.inr (Or.inr (Or.inr (Or.inr (Or.inl rfl))))))
       · exact Res.bad ⟨fl, k, by simp [hb, R.asSet], hf⟩
-  | @reduce Γ a τ d lo hi _ ih =>
+  | @reduce rz Γ a a' τ d lo hi _ ih =>
     intro fuel p st ρ hinv hcov
     cases fuel with
     | zero => exact Res.zero ..
     | succ f =>
       rw [ev_reduce]
-      rcases ih f (some .REDUCE) st ρ hinv (hcov.kid (by simp)) with ⟨v1, st1, h1, p1, w1, n1, d1⟩ | ⟨fl, k, hb, hf⟩
+      rcases ih f (some .REDUCE) st ρ hinv (hcov.kid (by simp)) with ⟨v1, st1, h1, ⟨p1, m1⟩, w1, n1, d1⟩ | ⟨fl, k, hb, hf⟩
       · obtain ⟨xs, rfl⟩ := WF_coll_isSet w1
         obtain ⟨r, hr, wr, dr⟩ := reduce_WF w1
         simp only [h1, R.asSet, hr]
-        exact Res.val rfl p1 wr (by simpa [noAny_coll] using n1) (by
-          rw [denote_reduce, d1]
+        exact Res.val rfl ⟨p1, m1⟩ wr (by simpa [noAny_coll] using n1) (by
+          dsucc g hg
+          rw [denote_reduce, d1 g (by omega)]
           show Option.map SemVal.val (Option.map (fun ls => setOf ls.flatten) (List.mapM members xs)) = _
           rw [dr]; rfl)
       · exact Res.bad ⟨fl, k, by simp [hb, R.asSet], hf⟩
-  | @smallpr Γ a ts τ idx lo hi _ hp ih =>
+  | @smallpr rz Γ a a' ts τ idx lo hi _ hp ih =>
     intro fuel p st ρ hinv hcov
     cases fuel with
     | zero => exact Res.zero ..
     | succ f =>
       rw [ev_smallpr]
-      rcases ih f (some .SMALLPR) st ρ hinv (hcov.kid (by simp)) with ⟨v1, st1, h1, p1, w1, n1, d1⟩ | ⟨fl, k, hb, hf⟩
+      rcases ih f (some .SMALLPR) st ρ hinv (hcov.kid (by simp)) with ⟨v1, st1, h1, ⟨p1, m1⟩, w1, n1, d1⟩ | ⟨fl, k, hb, hf⟩
       · obtain ⟨r, hr, wr⟩ := project_WF w1 hp
         simp only [h1, R.asVal, hr]
-        exact Res.val rfl p1 wr (projTy_noAny (by simpa [noAny_tuple] using n1) hp) (by
-          rw [denote_smallpr, d1]
+        exact Res.val rfl ⟨p1, m1⟩ wr (projTy_noAny (by simpa [noAny_tuple] using n1) hp) (by
+          dsucc g hg
+          rw [denote_smallpr, d1 g (by omega)]
           show Option.map SemVal.val (select v1 idx) = _
           rw [← project_eq_select, hr]; rfl)
       · exact Res.bad ⟨fl, k, by simp [hb, R.asVal], hf⟩
-  | @bigpr Γ a ts τ idx lo hi _ hp ih =>
+  | @bigpr rz Γ a a' ts τ idx lo hi _ hp ih =>
     intro fuel p st ρ hinv hcov
     cases fuel with
     | zero => exact Res.zero ..
     | succ f =>
       rw [ev_bigpr]
-      rcases ih f (some .BIGPR) st ρ hinv (hcov.kid (by simp)) with ⟨v1, st1, h1, p1, w1, n1, d1⟩ | ⟨fl, k, hb, hf⟩
+      rcases ih f (some .BIGPR) st ρ hinv (hcov.kid (by simp)) with ⟨v1, st1, h1, ⟨p1, m1⟩, w1, n1, d1⟩ | ⟨fl, k, hb, hf⟩
       · obtain ⟨xs, rfl⟩ := WF_coll_isSet w1
         obtain ⟨r, hr, wr, dr⟩ := projSet_WF w1 hp
         simp only [h1, R.asSet, hr]
-        exact Res.val rfl p1 wr (by
+        exact Res.val rfl ⟨p1, m1⟩ wr (by
             have : noAnyList ts = true := by simpa [noAny_coll, noAny_tuple] using n1
             simpa [noAny_coll] using projTy_noAny this hp) (by
-          rw [denote_bigpr, d1]
+          dsucc g hg
+          rw [denote_bigpr, d1 g (by omega)]
           show Option.map SemVal.val (Option.map setOf (List.mapM (fun x => select x idx) xs)) = _
           rw [dr]; rfl)
       · exact Res.bad ⟨fl, k, by simp [hb, R.asSet], hf⟩
-  | @pow Γ a τ d lo hi _ hsmall ih =>
+  | @pow rz Γ a a' τ d lo hi _ hsmall ih =>
     intro fuel p st ρ hinv hcov
     cases fuel with
     | zero => exact Res.zero ..
     | succ f =>
       rw [ev_boolean]
-      rcases ih f (some .BOOLEAN) st ρ hinv (hcov.kid (by simp)) with ⟨v1, st1, h1, p1, w1, n1, d1⟩ | ⟨fl, k, hb, hf⟩
+      rcases ih f (some .BOOLEAN) st ρ hinv (hcov.kid (by simp)) with ⟨v1, st1, h1, ⟨p1, m1⟩, w1, n1, d1⟩ | ⟨fl, k, hb, hf⟩
       · obtain ⟨xs, rfl⟩ := WF_coll_isSet w1
-        have hlen : xs.length ≤ POW_BOUND := hsmall f ρ xs d1
+        have hlen : xs.length ≤ POW_BOUND := hsmall f ρ xs (d1 f (Nat.le_refl _))
         have wx := WF_set_iff.mp w1
         have hn : noAny τ = true := by simpa [noAny_coll] using n1
         -- the reference bound is within the model's enumeration limit, which is below the boolean limit
@@ -494,48 +638,64 @@ theorem sim {G : TCtx} {lvl : Nat} (hG : GlobalsOK env G) (c : Ctx) {Γ : TCtx} 
         have c1 : ¬ (xs.length ≥ Val.BOOL_INFINITY) := by omega
         have c2 : ¬ (xs.length > POW_LIMIT) := by omega
         simp only [h1, R.asSet, c1, c2, decide_false, Bool.and_false, Bool.false_eq_true, if_false]
-        refine Res.val rfl p1 ⟨pow_hasTy xs τ wx.1, pow_canon xs wx.2.1 wx.2.2⟩ (by simpa [noAny_coll] using hn) ?_
-        rw [denote_boolean, d1]
+        refine Res.val rfl ⟨p1, m1⟩ ⟨pow_hasTy xs τ wx.1, pow_canon xs wx.2.1 wx.2.2⟩ (by simpa [noAny_coll] using hn) ?_
+        dsucc g hg
+        rw [denote_boolean, d1 g (by omega)]
         have c3 : ¬ (xs.length > POW_BOUND) := by omega
         simp only [dSet, dVal, members, Option.bind_some, c3, if_false]
         rw [pow_agrees xs τ hn wx.1 wx.2.2]
       · exact Res.bad ⟨fl, k, by simp [hb, R.asSet], hf⟩
-  | @decart Γ d lo hi ks ts hl2 hlen _ ih =>
+  | @decart rz Γ d lo hi ks ks' ts hl2 hlen hlen' _ ih =>
     intro fuel p st ρ hinv hcov
     cases fuel with
     | zero => exact Res.zero ..
     | succ f =>
       rw [ev_decart]
-      have hk1 : ((ks.zip ts).map (fun q => (q.1, Ty.coll q.2))).map (·.1) = ks := by
+      let kts : List ((Ast × Ast) × Ty) := ((ks.zip ks').zip ts).map (fun q => (q.1, Ty.coll q.2))
+      have hk0 : ((ks.zip ks').zip ts).map (·.1) = ks.zip ks' := by
+        rw [List.map_fst_zip]; rw [List.length_zip]; omega
+      have hk1 : kts.map (·.1.1) = ks := by
+        show (((ks.zip ks').zip ts).map (fun q => (q.1, Ty.coll q.2))).map (·.1.1) = ks
         rw [List.map_map]
-        show (ks.zip ts).map (·.1) = ks
-        rw [List.map_fst_zip]; omega
-      have hk2 : ((ks.zip ts).map (fun q => (q.1, Ty.coll q.2))).map (·.2) = ts.map Ty.coll := by
+        have : ((ks.zip ks').zip ts).map ((·.1.1) ∘ fun q => (q.1, Ty.coll q.2)) =
+            (((ks.zip ks').zip ts).map (·.1)).map (·.1) := by rw [List.map_map]; rfl
+        rw [this, hk0, List.map_fst_zip]; omega
+      have hk1' : kts.map (·.1.2) = ks' := by
+        show (((ks.zip ks').zip ts).map (fun q => (q.1, Ty.coll q.2))).map (·.1.2) = ks'
         rw [List.map_map]
-        have : (ks.zip ts).map (fun q => Ty.coll q.2) = ((ks.zip ts).map (·.2)).map Ty.coll := by
-          rw [List.map_map]; rfl
-        show (ks.zip ts).map (fun q => Ty.coll q.2) = _
-        rw [this, List.map_snd_zip]; omega
-      rcases evKids_sim_het c Γ ρ f .DECART ((ks.zip ts).map (fun q => (q.1, Ty.coll q.2)))
+        have : ((ks.zip ks').zip ts).map ((·.1.2) ∘ fun q => (q.1, Ty.coll q.2)) =
+            (((ks.zip ks').zip ts).map (·.1)).map (·.2) := by rw [List.map_map]; rfl
+        rw [this, hk0, List.map_snd_zip]; omega
+      have hk2 : kts.map (·.2) = ts.map Ty.coll := by
+        show (((ks.zip ks').zip ts).map (fun q => (q.1, Ty.coll q.2))).map (·.2) = ts.map Ty.coll
+        rw [List.map_map]
+        have : ((ks.zip ks').zip ts).map ((·.2) ∘ fun q => (q.1, Ty.coll q.2)) =
+            (((ks.zip ks').zip ts).map (·.2)).map Ty.coll := by rw [List.map_map]; rfl
+        rw [this, List.map_snd_zip]; rw [List.length_zip]; omega
+      rcases evKids_sim_het c rz Γ ρ f .DECART kts
           (fun q hq st' hp' => by
             obtain ⟨q0, hq0, rfl⟩ := List.mem_map.mp hq
-            exact ih q0 hq0 f (some .DECART) st' ρ hp' (hcov.kid (List.of_mem_zip hq0).1)) [] st hinv with
-        ⟨vs, st1, h1, p1, w1, d1⟩ | ⟨fl, k, hb, hf⟩
-      · rw [hk1] at h1 d1
+            exact ih q0 hq0 f (some .DECART) st' ρ hp' (hcov.kid (List.of_mem_zip (List.of_mem_zip hq0).1).2)) [] st hinv with
+        ⟨vs, st1, h1, p1, m1, w1, d1⟩ | ⟨fl, k, hb, hf⟩
+      · rw [hk1'] at h1
         rw [hk2] at w1
         obtain ⟨fs, rfl, hty, hcan, hsor, hna⟩ := forall₂_sets w1
         have hfl : fs.length ≥ 2 := by
           have := List.Forall₂.length_eq hty; omega
         simp only [h1, List.nil_append, allSome_sets]
-        have hden : denote (senvOf env) (f + 1) ρ (.node .DECART d lo hi ks) =
+        have hden : ∀ g, f ≤ g → denote (senvOf env) (g + 1) ρ (.node .DECART d lo hi ks) =
             (if (fs.foldl (fun n f => n * f.length) 1) > PROD_BOUND then none
              else some (.val (setOf ((tuples fs).map Val.t)))) := by
-          rw [denote_decart, mapM_dSet_of_dVal d1]
+          intro g hg
+          have := d1 g hg
+          rw [hk1] at this
+          rw [denote_decart, mapM_dSet_of_dVal this]
         have hnt : noAny (.coll (.tuple ts)) = true := by simpa [noAny_coll, noAny_tuple] using hna
         by_cases hemp : fs.any (·.isEmpty) = true
         · simp only [hemp, if_true]
-          refine Res.val rfl p1 (WF_empty _) hnt ?_
-          rw [hden, prod_foldl_of_empty fs 1 hemp, tuples_of_empty fs hemp]
+          refine Res.val rfl ⟨p1, m1⟩ (WF_empty _) hnt ?_
+          dsucc g hg
+          rw [hden g (by omega), prod_foldl_of_empty fs 1 hemp, tuples_of_empty fs hemp]
           simp [PROD_BOUND, setOf, mkSet, mkSetList, insertAll]
         · simp only [hemp, Bool.false_eq_true, if_false]
           by_cases hinf : (Val.prodCard fs == Val.SET_INFINITY) = true
@@ -546,14 +706,15 @@ theorem sim {G : TCtx} {lvl : Nat} (hG : GlobalsOK env G) (c : Ctx) {Γ : TCtx} 
             · simp only [hbig, if_true]
               exact Res.bad (bad_outOfFuel _)
             · simp only [hbig, if_false]
-              refine Res.val rfl p1 ⟨prod_hasTy fs ts hty, prod_canon fs hfl hcan hsor⟩ hnt ?_
+              refine Res.val rfl ⟨p1, m1⟩ ⟨prod_hasTy fs ts hty, prod_canon fs hfl hcan hsor⟩ hnt ?_
               have hpc := prodCard_eq fs (by simpa using hinf)
               have : ¬ (fs.foldl (fun n f => n * f.length) 1 > PROD_BOUND) := by
                 rw [← hpc]; simpa [PROD_LIMIT, PROD_BOUND] using hbig
-              rw [hden, if_neg this, prod_agrees fs ts hna hty hsor]
-      · rw [hk1] at hb
+              dsucc g hg
+              rw [hden g (by omega), if_neg this, prod_agrees fs ts hna hty hsor]
+      · rw [hk1'] at hb
         exact Res.bad ⟨fl, k, by simp [hb], hf⟩
-  | @glob Γ τ g lo hi _ hg =>
+  | @glob rz Γ τ g lo hi _ hg =>
     intro fuel p st ρ hinv hcov
     cases fuel with
     | zero => exact Res.zero ..
@@ -562,11 +723,12 @@ theorem sim {G : TCtx} {lvl : Nat} (hG : GlobalsOK env G) (c : Ctx) {Γ : TCtx} 
       obtain ⟨i, hi⟩ := hcov g (by simp [names, namesKids, tok_beq])
       obtain ⟨hn, v, hv, wv⟩ := hG g τ hg
       simp only [hi, hinv.glob g v i hv hi]
-      exact Res.val rfl hinv wv hn (by
+      exact Res.val rfl ⟨rfl, Nat.le_refl _⟩ wv hn (by
+        dsucc g' hg'
         rw [denote_global, assoc_eq_lookup]
         show Option.map SemVal.val (lookup g env.globals) = _
         rw [hv]; rfl)
-  | @loc Γ τ x lo hi _ hx =>
+  | @loc rz Γ τ x lo hi _ hx hxσ =>
     intro fuel p st ρ hinv hcov
     cases fuel with
     | zero => exact Res.zero ..
@@ -574,9 +736,11 @@ theorem sim {G : TCtx} {lvl : Nat} (hG : GlobalsOK env G) (c : Ctx) {Γ : TCtx} 
       rw [ev_ident (Or.inl rfl)]
       obtain ⟨i, hi⟩ := hcov x (by simp [names, namesKids, tok_beq])
       obtain ⟨_, hn, v, hfind, wv, hslot⟩ := hinv.loc x τ hx
+      unfold Holds at hslot
+      rw [hxσ] at hslot
       simp only [hi, hslot i hi]
-      exact Res.val rfl hinv wv hn (by rw [denote_local, hfind])
-  | @quant Γ t dom body τ d lo hi x dlo dhi _ ht hxΓ hxg _ _ ihd ihb =>
+      exact Res.val rfl ⟨rfl, Nat.le_refl _⟩ wv hn (by dsucc g hg; rw [denote_local, hfind])
+  | @quant rz Γ t dom body dom' body' τ d lo hi x dlo dhi _ ht hxΓ hxg hxz _ _ ihd ihb =>
     intro fuel p st ρ hinv hcov
     cases fuel with
     | zero => exact Res.zero ..
@@ -584,27 +748,33 @@ theorem sim {G : TCtx} {lvl : Nat} (hG : GlobalsOK env G) (c : Ctx) {Γ : TCtx} 
       rw [ev_quant ht]
       obtain ⟨var, hvar⟩ := hcov x (names_kid (k := .node .ID_LOCAL (.text x) dlo dhi []) (by simp)
         (by simp [names, namesKids, tok_beq]))
-      rcases ihd f (some t) st ρ hinv (hcov.kid (by simp)) with ⟨v1, st1, h1, p1, w1, n1, d1⟩ | ⟨fl, k, hb, hf⟩
+      rcases ihd f (some t) st ρ hinv (hcov.kid (by simp)) with ⟨v1, st1, h1, ⟨p1, m1⟩, w1, n1, d1⟩ | ⟨fl, k, hb, hf⟩
       · obtain ⟨xs, rfl⟩ := WF_coll_isSet w1
         have hn : noAny τ = true := by simpa [noAny_coll] using n1
-        simp only [h1, R.asSet, hvar]
-        rcases quantLoop_sim (Inv env c Γ ρ) (fun st => ev c f body (some t) st)
-            (fun v => dBool (denote (senvOf env) f (.val x v ρ) body)) var (t == .FORALL) lo xs
-            (fun v hv st' n hp' => by
-              rcases ihb f (some t) { data := st'.data.set var v, iters := n } (.val x v ρ)
-                  (hp'.bind n hxΓ hxg hvar hn (w1.mem hv)) (hcov.kid (by simp)) with
-                ⟨b, st'', hb, hp'', hd⟩ | hbad
-              · exact Or.inl ⟨b, st'', hb, hp''.unbind hxΓ, by rw [hd]; rfl⟩
-              · exact Or.inr hbad) st1 p1 with
-          ⟨b, st2, h2, p2, hk⟩ | hbad
+        have hinv1 := hinv.of_data p1
+        obtain ⟨saved, hsaved⟩ := slot_some (hinv1.range x var hvar)
+        simp only [h1, R.asSet, hvar, hsaved]
+        rcases quantLoop_sim (ι := { g : Nat // f ≤ g }) (fun s => s.data.set var saved = st1.data ∧ st.iters ≤ s.iters)
+            (fun st => ev c f body' (some t) st)
+            (fun i v => dBool (denote (senvOf env) i.1 (.val x v ρ) body)) var (t == .FORALL) lo xs
+            (fun v hv st' hp' => by
+              have hinvs : Inv env c rz Γ ρ st' := hinv1.of_set hxΓ hxg hxz hvar hp'.1
+              rcases ihb f (some t) { data := st'.data.set var v, iters := st'.iters + 1 } (.val x v ρ)
+                  (hinvs.bind _ hxΓ hxg hxz hvar hn (w1.mem hv)) (hcov.kid (by simp)) with
+                ⟨b, st'', hb, ⟨hp'', hm''⟩, hd⟩ | hbad
+              · exact Or.inl ⟨b, st'', hb, ⟨by rw [hp'']; simp only [List.set_set]; exact hp'.1,
+                  by have := hp'.2; simp at hm''; omega⟩, fun i => by rw [hd i.1 i.2]; rfl⟩
+              · exact Or.inr hbad) st1 ⟨set_self _ _ _ hsaved, m1⟩ with
+          ⟨b, st2, h2, ⟨p2, m2⟩, hk⟩ | hbad
         · rw [h2]
-          exact Res.bool rfl p2 (by
-            rw [denote_quant ht, d1]
+          exact Res.bool rfl ⟨by show st2.data.set var saved = st.data; rw [p2, p1], m2⟩ (by
+            dsucc g hg
+            rw [denote_quant ht, d1 g (by omega)]
             simp only [dSet, dVal, members, Option.bind_some]
-            rw [hk]; rfl)
-        · exact Res.bad hbad
+            rw [hk ⟨g, by omega⟩]; rfl)
+        · exact Res.bad (by obtain ⟨fl, k, hb, hf⟩ := hbad; exact ⟨fl, k, by rw [hb]; rfl, hf⟩)
       · exact Res.bad ⟨fl, k, by simp [hb, R.asSet], hf⟩
-  | @decl Γ dom body τ d lo hi x dlo dhi _ hxΓ hxg _ _ ihd ihb =>
+  | @decl rz Γ dom body dom' body' τ d lo hi x dlo dhi _ hxΓ hxg hxz _ _ ihd ihb =>
     intro fuel p st ρ hinv hcov
     cases fuel with
     | zero => exact Res.zero ..
@@ -613,25 +783,407 @@ theorem sim {G : TCtx} {lvl : Nat} (hG : GlobalsOK env G) (c : Ctx) {Γ : TCtx} 
       obtain ⟨var, hvar⟩ := hcov x (names_kid (k := .node .ID_LOCAL (.text x) dlo dhi []) (by simp)
         (by simp [names, namesKids, tok_beq]))
       rcases ihd f (some .NT_DECLARATIVE_EXPR) st ρ hinv (hcov.kid (by simp)) with
-        ⟨v1, st1, h1, p1, w1, n1, d1⟩ | ⟨fl, k, hb, hf⟩
+        ⟨v1, st1, h1, ⟨p1, m1⟩, w1, n1, d1⟩ | ⟨fl, k, hb, hf⟩
       · obtain ⟨xs, rfl⟩ := WF_coll_isSet w1
         have hn : noAny τ = true := by simpa [noAny_coll] using n1
-        simp only [h1, R.asSet, hvar]
-        rcases declLoop_sim (Inv env c Γ ρ) (fun st => ev c f body (some .NT_DECLARATIVE_EXPR) st)
-            (fun v => dBool (denote (senvOf env) f (.val x v ρ) body)) var lo τ xs (fun v hv => w1.mem hv)
-            (fun v hv st' n hp' => by
-              rcases ihb f (some .NT_DECLARATIVE_EXPR) { data := st'.data.set var v, iters := n } (.val x v ρ)
-                  (hp'.bind n hxΓ hxg hvar hn (w1.mem hv)) (hcov.kid (by simp)) with
-                ⟨b, st'', hb, hp'', hd⟩ | hbad
-              · exact Or.inl ⟨b, st'', hb, hp''.unbind hxΓ, by rw [hd]; rfl⟩
-              · exact Or.inr hbad) [] st1 p1 (WF_empty τ) with
-          ⟨flags, st2, h2, p2, wf2, hm⟩ | hbad
+        have hinv1 := hinv.of_data p1
+        obtain ⟨saved, hsaved⟩ := slot_some (hinv1.range x var hvar)
+        simp only [h1, R.asSet, hvar, hsaved]
+        rcases declLoop_sim (ι := { g : Nat // f ≤ g }) (fun s => s.data.set var saved = st1.data ∧ st.iters ≤ s.iters)
+            (fun st => ev c f body' (some .NT_DECLARATIVE_EXPR) st)
+            (fun i v => dBool (denote (senvOf env) i.1 (.val x v ρ) body)) var lo τ xs (fun v hv => w1.mem hv)
+            (fun v hv st' hp' => by
+              have hinvs : Inv env c rz Γ ρ st' := hinv1.of_set hxΓ hxg hxz hvar hp'.1
+              rcases ihb f (some .NT_DECLARATIVE_EXPR) { data := st'.data.set var v, iters := st'.iters + 1 } (.val x v ρ)
+                  (hinvs.bind _ hxΓ hxg hxz hvar hn (w1.mem hv)) (hcov.kid (by simp)) with
+                ⟨b, st'', hb, ⟨hp'', hm''⟩, hd⟩ | hbad
+              · exact Or.inl ⟨b, st'', hb, ⟨by rw [hp'']; simp only [List.set_set]; exact hp'.1,
+                  by have := hp'.2; simp at hm''; omega⟩, fun i => by rw [hd i.1 i.2]; rfl⟩
+              · exact Or.inr hbad) [] st1 ⟨set_self _ _ _ hsaved, m1⟩ (WF_empty τ) with
+          ⟨flags, st2, h2, ⟨p2, m2⟩, wf2, hm⟩ | hbad
         · rw [h2]
-          exact Res.val rfl p2 wf2 n1 (by
-            rw [denote_decl, d1]
+          exact Res.val rfl ⟨by show st2.data.set var saved = st.data; rw [p2, p1], m2⟩ wf2 n1 (by
+            dsucc g hg
+            rw [denote_decl, d1 g (by omega)]
             simp only [dSet, dVal, members, Option.bind_some]
-            rw [hm]; rfl)
-        · exact Res.bad hbad
+            rw [hm ⟨g, by omega⟩]; rfl)
+        · exact Res.bad (by obtain ⟨fl, k, hb, hf⟩ := hbad; exact ⟨fl, k, by rw [hb]; rfl, hf⟩)
       · exact Res.bad ⟨fl, k, by simp [hb, R.asSet], hf⟩
+  | @recShort rz Γ init body init' body' τ d lo hi x dlo dhi _ hxΓ hxg hxz _ _ ihi ihb =>
+    intro fuel p st ρ hinv hcov
+    cases fuel with
+    | zero => exact Res.zero ..
+    | succ f =>
+      rw [ev_recShort]
+      obtain ⟨var, hvar⟩ := hcov x (names_kid (k := .node .ID_LOCAL (.text x) dlo dhi []) (by simp)
+        (by simp [names, namesKids, tok_beq]))
+      rcases ihi f (some .NT_RECURSIVE_SHORT) st ρ hinv (hcov.kid (by simp)) with
+        ⟨v1, st1, h1, ⟨p1, m1⟩, w1, n1, d1⟩ | ⟨fl, k, hb, hf⟩
+      · have hinv1 := hinv.of_data p1
+        obtain ⟨saved, hsaved⟩ := slot_some (hinv1.range x var hvar)
+        simp only [h1, R.asVal, hvar, hsaved]
+        rcases recLoop_sim (ι := { g : Nat // f ≤ g }) (fun s => s.data.set var saved = st1.data)
+            (fun cur s => Inv env c rz ((x, τ) :: Γ) (.val x cur ρ) s ∧ s.data.set var saved = st1.data)
+            none (fun st => ev c f body' (some .NT_RECURSIVE_SHORT) st)
+            (fun _ _ => some true) (fun i cur => dVal (denote (senvOf env) i.1 (.val x cur ρ) body)) var lo τ
+            (fun cur st' n hw hp => ⟨(hinv1.of_set hxΓ hxg hxz hvar hp).bind n hxΓ hxg hxz hvar n1 hw,
+              by simp only [List.set_set]; exact hp⟩)
+            (fun cur st' hp => hp.2)
+            (fun cur st' hp => by
+              obtain ⟨_, _, v, hf', _, hs⟩ := hp.1.loc x τ (lookup_cons_self x τ Γ)
+              rw [find_val_self] at hf'
+              injection hf' with hf'; injection hf' with hf'; subst hf'
+              unfold Holds at hs
+              rw [hinv1.sigma_none hxΓ] at hs
+              exact hs var hvar)
+            (fun c' hc => by cases hc)
+            (fun _ _ _ => rfl)
+            (fun cur st' hw hp => by
+              rcases ihb f (some .NT_RECURSIVE_SHORT) st' (.val x cur ρ) hp.1 (hcov.kid (by simp)) with
+                ⟨nxt, st'', hb, ⟨hp'', hm''⟩, w, _, hd⟩ | hbad
+              · exact Or.inl ⟨nxt, st'', hb, ⟨hp.1.of_data hp'', by rw [hp'']; exact hp.2⟩, hm'', w,
+                  fun i => by rw [hd i.1 i.2]; rfl⟩
+              · exact Or.inr hbad)
+            (MAX_ITERATIONS + 2) REC_BOUND v1 st1 w1 (set_self _ _ _ hsaved) (by have := rec_bound_eq; omega) with
+          ⟨r, st2, h2, p2, m2, w2, hk⟩ | hbad
+        · rw [h2]
+          exact Res.val rfl ⟨by show st2.data.set var saved = st.data; rw [p2, p1], by show st.iters ≤ st2.iters; omega⟩ w2 n1 (by
+            dsucc g hg
+            rw [denote_recShort, d1 g (by omega)]
+            show Option.map SemVal.val (recSem _ _ REC_BOUND v1) = _
+            rw [hk ⟨g, hg⟩]; rfl)
+        · exact Res.bad (by obtain ⟨fl, k, hb, hf⟩ := hbad; exact ⟨fl, k, by rw [hb]; rfl, hf⟩)
+      · exact Res.bad ⟨fl, k, by simp [hb, R.asVal], hf⟩
+  | @recFull rz Γ init cond body init' cond' body' τ d lo hi x dlo dhi _ hxΓ hxg hxz _ _ _ ihi ihc ihb =>
+    intro fuel p st ρ hinv hcov
+    cases fuel with
+    | zero => exact Res.zero ..
+    | succ f =>
+      rw [ev_recFull]
+      obtain ⟨var, hvar⟩ := hcov x (names_kid (k := .node .ID_LOCAL (.text x) dlo dhi []) (by simp)
+        (by simp [names, namesKids, tok_beq]))
+      rcases ihi f (some .NT_RECURSIVE_FULL) st ρ hinv (hcov.kid (by simp)) with
+        ⟨v1, st1, h1, ⟨p1, m1⟩, w1, n1, d1⟩ | ⟨fl, k, hb, hf⟩
+      · have hinv1 := hinv.of_data p1
+        obtain ⟨saved, hsaved⟩ := slot_some (hinv1.range x var hvar)
+        simp only [h1, R.asVal, hvar, hsaved]
+        rcases recLoop_sim (ι := { g : Nat // f ≤ g }) (fun s => s.data.set var saved = st1.data)
+            (fun cur s => Inv env c rz ((x, τ) :: Γ) (.val x cur ρ) s ∧ s.data.set var saved = st1.data)
+            (some fun st => ev c f cond' (some .NT_RECURSIVE_FULL) st) (fun st => ev c f body' (some .NT_RECURSIVE_FULL) st)
+            (fun i cur => dBool (denote (senvOf env) i.1 (.val x cur ρ) cond))
+            (fun i cur => dVal (denote (senvOf env) i.1 (.val x cur ρ) body)) var lo τ
+            (fun cur st' n hw hp => ⟨(hinv1.of_set hxΓ hxg hxz hvar hp).bind n hxΓ hxg hxz hvar n1 hw,
+              by simp only [List.set_set]; exact hp⟩)
+            (fun cur st' hp => hp.2)
+            (fun cur st' hp => by
+              obtain ⟨_, _, v, hf', _, hs⟩ := hp.1.loc x τ (lookup_cons_self x τ Γ)
+              rw [find_val_self] at hf'
+              injection hf' with hf'; injection hf' with hf'; subst hf'
+              unfold Holds at hs
+              rw [hinv1.sigma_none hxΓ] at hs
+              exact hs var hvar)
+            (fun c' hc cur st' hw hp => by
+              injection hc with hc; subst hc
+              rcases ihc f (some .NT_RECURSIVE_FULL) st' (.val x cur ρ) hp.1 (hcov.kid (by simp)) with
+                ⟨b, st'', hb, ⟨hp'', hm''⟩, hd⟩ | hbad
+              · exact Or.inl ⟨b, st'', hb, ⟨hp.1.of_data hp'', by rw [hp'']; exact hp.2⟩, hm'',
+                  fun i => by rw [hd i.1 i.2]; rfl⟩
+              · exact Or.inr hbad)
+            (fun hc => by cases hc)
+            (fun cur st' hw hp => by
+              rcases ihb f (some .NT_RECURSIVE_FULL) st' (.val x cur ρ) hp.1 (hcov.kid (by simp)) with
+                ⟨nxt, st'', hb, ⟨hp'', hm''⟩, w, _, hd⟩ | hbad
+              · exact Or.inl ⟨nxt, st'', hb, ⟨hp.1.of_data hp'', by rw [hp'']; exact hp.2⟩, hm'', w,
+                  fun i => by rw [hd i.1 i.2]; rfl⟩
+              · exact Or.inr hbad)
+            (MAX_ITERATIONS + 2) REC_BOUND v1 st1 w1 (set_self _ _ _ hsaved) (by have := rec_bound_eq; omega) with
+          ⟨r, st2, h2, p2, m2, w2, hk⟩ | hbad
+        · rw [h2]
+          exact Res.val rfl ⟨by show st2.data.set var saved = st.data; rw [p2, p1], by show st.iters ≤ st2.iters; omega⟩ w2 n1 (by
+            dsucc g hg
+            rw [denote_recFull, d1 g (by omega)]
+            show Option.map SemVal.val (recSem _ _ REC_BOUND v1) = _
+            rw [hk ⟨g, hg⟩]; rfl)
+        · exact Res.bad (by obtain ⟨fl, k, hb, hf⟩ := hbad; exact ⟨fl, k, by rw [hb]; rfl, hf⟩)
+      · exact Res.bad ⟨fl, k, by simp [hb, R.asVal], hf⟩
+  | @quantEnum rz Γ t dom body dom' body' τ d dd lo hi dlo dhi xs _ ht hlen hnd hfresh _ _ ihd ihb =>
+    intro fuel p st ρ hinv hcov
+    cases fuel with
+    | zero => exact Res.zero ..
+    | succ F =>
+      obtain ⟨hcb, hcd0, hslots⟩ := covered_nest t d lo hi dom' body' xs hcov
+      have hxne : xs ≠ [] := by intro e; rw [e] at hlen; simp at hlen
+      have hcd := hcd0 hxne
+      rcases ihd F (some t) st ρ hinv hcd with ⟨v1, st1, h1, _, w1, n1, d1⟩ | ⟨fl, k, hb, hf⟩
+      · obtain ⟨vs, rfl⟩ := WF_coll_isSet w1
+        -- the value of the domain does not depend on what the variables are bound to
+        have hvs : ∀ ρ', AgreeOn Γ ρ ρ' → ∀ g, F ≤ g → denote (senvOf env) g ρ' dom = some (.val (.s vs)) := by
+          intro ρ' ha g hg
+          rcases ihd F (some t) st ρ' (hinv.of_agree ha) hcd with ⟨v2, st2, h2, _, _, _, d2⟩ | ⟨fl, k, hb, hf⟩
+          · rw [h1] at h2
+            injection h2 with h2; injection h2 with h2
+            rw [h2]; exact d2 g hg
+          · rw [h1] at hb; cases hb
+        rcases nest_sim c rz Γ ht d lo hi dom dom' body body' τ xs (by omega) hnd hfresh (fun x r hl => (hinv.dom x r hl).1) hslots
+            (fun fuel p st ρ hi => ihd fuel p st ρ hi hcd) (fun fuel p st ρ hi => ihb fuel p st ρ hi hcb) ρ F vs hvs
+            xs [] rfl (F + 1) (by simp) p st ρ hinv (AgreeOn.refl Γ ρ) with
+          ⟨b, st', hb, e, m, hd⟩ | hbad
+        · exact Res.bool hb ⟨e, m⟩ (by
+            dsucc g hg
+            rw [denote_quantEnum ht, d1 g hg]
+            simp only [dSet, dVal, members, Option.bind_some]
+            rw [hd g hg]; rfl)
+        · exact Res.bad hbad
+      · -- the domain fails: so does the outermost quantifier
+        match xs, hxne with
+        | q :: rest, _ =>
+          show Res env (F + 1) ρ _ _ _ (ev c (F + 1) (.node t d lo hi [.node .ID_LOCAL (.text q.1) q.2.1 q.2.2 [], dom',
+            nest t d lo hi dom' body' rest]) p st)
+          rw [ev_quant ht]
+          exact Res.bad ⟨fl, k, by simp [hb, R.asSet], hf⟩
+  | @locPr rz Γ τ x nn k lo hi _ hx hxσ =>
+    intro fuel p st ρ hinv hcov
+    cases fuel with
+    | zero => exact Res.zero ..
+    | succ f =>
+      rw [ev_smallpr]
+      cases f with
+      | zero =>
+        rw [ev_zero]
+        exact Res.bad ⟨_, _, rfl, Or.inl rfl⟩
+      | succ f' =>
+        rw [ev_ident (Or.inl rfl)]
+        obtain ⟨_, hn, v, hfind, wv, hslot⟩ := hinv.loc x τ hx
+        unfold Holds at hslot
+        rw [hxσ] at hslot
+        obtain ⟨i, w, h1, h2, h3⟩ := hslot
+        have hpr : Val.project w [k] = some v := by
+          simp [Val.project, Val.components, h3, Val.mkTuple]
+        simp only [h1, h2, R.asVal, hpr]
+        exact Res.val rfl ⟨rfl, Nat.le_refl _⟩ wv hn (by dsucc g hg; rw [denote_local, hfind])
+  | @quantTup rz Γ t dom body dom' body' ts d lo hi pd plo phi xs nn _ ht hlen hl2 hnd hfresh hnnΓ hnng hnnxs hnnσ _ _ _ ihd ihb =>
+    intro fuel p st ρ hinv hcov
+    cases fuel with
+    | zero => exact Res.zero ..
+    | succ f =>
+      rw [ev_quant ht]
+      obtain ⟨var, hvar⟩ := hcov nn (names_kid (k := .node .ID_LOCAL (.text nn) plo phi []) (by simp)
+        (by simp [names, namesKids, tok_beq]))
+      rcases ihd f (some t) st ρ hinv (hcov.kid (by simp)) with ⟨v1, st1, h1, ⟨p1, m1⟩, w1, n1, d1⟩ | ⟨fl, k, hb, hf⟩
+      · obtain ⟨vs, rfl⟩ := WF_coll_isSet w1
+        have hnts : noAnyList ts = true := by simpa [noAny_coll, noAny_tuple] using n1
+        have hinv1 := hinv.of_data p1
+        obtain ⟨saved, hsaved⟩ := slot_some (hinv1.range nn var hvar)
+        simp only [h1, R.asSet, hvar, hsaved]
+        rcases quantLoop_sim (ι := { g : Nat // f ≤ g }) (fun s => s.data.set var saved = st1.data ∧ st.iters ≤ s.iters)
+            (fun st => ev c f body' (some t) st)
+            (fun i v => patBody (senvOf env) i.1 pd plo phi xs ρ body v) var (t == .FORALL) lo vs
+            (fun v hv st' hp' => by
+              have hinvs : Inv env c rz Γ ρ st' := hinv1.of_set hnnΓ hnng hnnσ hvar hp'.1
+              obtain ⟨cs, rfl⟩ := WF_tuple_isTuple (w1.mem hv)
+              obtain ⟨hwcs, _⟩ := WF_tuple_iff.mp (w1.mem hv)
+              obtain ⟨ρ', hbp, hinv'⟩ := hinvs.bindTup xs ts cs nn var (st'.iters + 1) hlen hnd hfresh hnnΓ hnng hnnxs hnnσ
+                hvar hnts hwcs
+              rcases ihb f (some t) _ ρ' hinv' (hcov.kid (by simp)) with ⟨b, st'', hb, ⟨hp'', hm''⟩, hd⟩ | hbad
+              · refine Or.inl ⟨b, st'', hb, ⟨by rw [hp'']; simp only [List.set_set]; exact hp'.1,
+                  by have := hp'.2; simp at hm''; omega⟩, fun i => ?_⟩
+                rw [patBody_eq _ _ _ _ _ _ _ _ _ _ hbp, hd i.1 i.2]; rfl
+              · exact Or.inr hbad) st1 ⟨set_self _ _ _ hsaved, m1⟩ with
+          ⟨b, st2, h2, ⟨p2, m2⟩, hk⟩ | hbad
+        · rw [h2]
+          exact Res.bool rfl ⟨by show st2.data.set var saved = st.data; rw [p2, p1], m2⟩ (by
+            dsucc g hg
+            show denote (senvOf env) (g + 1) ρ (.node t d lo hi [patNode pd plo phi xs, dom, body]) = _
+            rw [denote_quantPat ht, d1 g (by omega)]
+            simp only [dSet, dVal, members, Option.bind_some]
+            rw [hk ⟨g, by omega⟩]; rfl)
+        · exact Res.bad (by obtain ⟨fl, k, hb, hf⟩ := hbad; exact ⟨fl, k, by rw [hb]; rfl, hf⟩)
+      · exact Res.bad ⟨fl, k, by simp [hb, R.asSet], hf⟩
+  | @declTup rz Γ dom body dom' body' ts d lo hi pd plo phi xs nn _ hlen hl2 hnd hfresh hnnΓ hnng hnnxs hnnσ _ _ _ ihd ihb =>
+    intro fuel p st ρ hinv hcov
+    cases fuel with
+    | zero => exact Res.zero ..
+    | succ f =>
+      rw [ev_decl]
+      obtain ⟨var, hvar⟩ := hcov nn (names_kid (k := .node .ID_LOCAL (.text nn) plo phi []) (by simp)
+        (by simp [names, namesKids, tok_beq]))
+      rcases ihd f (some .NT_DECLARATIVE_EXPR) st ρ hinv (hcov.kid (by simp)) with
+        ⟨v1, st1, h1, ⟨p1, m1⟩, w1, n1, d1⟩ | ⟨fl, k, hb, hf⟩
+      · obtain ⟨vs, rfl⟩ := WF_coll_isSet w1
+        have hnts : noAnyList ts = true := by simpa [noAny_coll, noAny_tuple] using n1
+        have hinv1 := hinv.of_data p1
+        obtain ⟨saved, hsaved⟩ := slot_some (hinv1.range nn var hvar)
+        simp only [h1, R.asSet, hvar, hsaved]
+        rcases declLoop_sim (ι := { g : Nat // f ≤ g }) (fun s => s.data.set var saved = st1.data ∧ st.iters ≤ s.iters)
+            (fun st => ev c f body' (some .NT_DECLARATIVE_EXPR) st)
+            (fun i v => patBody (senvOf env) i.1 pd plo phi xs ρ body v) var lo (.tuple ts) vs (fun v hv => w1.mem hv)
+            (fun v hv st' hp' => by
+              have hinvs : Inv env c rz Γ ρ st' := hinv1.of_set hnnΓ hnng hnnσ hvar hp'.1
+              obtain ⟨cs, rfl⟩ := WF_tuple_isTuple (w1.mem hv)
+              obtain ⟨hwcs, _⟩ := WF_tuple_iff.mp (w1.mem hv)
+              obtain ⟨ρ', hbp, hinv'⟩ := hinvs.bindTup xs ts cs nn var (st'.iters + 1) hlen hnd hfresh hnnΓ hnng hnnxs hnnσ
+                hvar hnts hwcs
+              rcases ihb f (some .NT_DECLARATIVE_EXPR) _ ρ' hinv' (hcov.kid (by simp)) with
+                ⟨b, st'', hb, ⟨hp'', hm''⟩, hd⟩ | hbad
+              · refine Or.inl ⟨b, st'', hb, ⟨by rw [hp'']; simp only [List.set_set]; exact hp'.1,
+                  by have := hp'.2; simp at hm''; omega⟩, fun i => ?_⟩
+                rw [patBody_eq _ _ _ _ _ _ _ _ _ _ hbp, hd i.1 i.2]; rfl
+              · exact Or.inr hbad) [] st1 ⟨set_self _ _ _ hsaved, m1⟩ (WF_empty _) with
+          ⟨flags, st2, h2, ⟨p2, m2⟩, wf2, hm⟩ | hbad
+        · rw [h2]
+          exact Res.val rfl ⟨by show st2.data.set var saved = st.data; rw [p2, p1], m2⟩ wf2 n1 (by
+            dsucc g hg
+            show denote (senvOf env) (g + 1) ρ (.node .NT_DECLARATIVE_EXPR d lo hi [patNode pd plo phi xs, dom, body]) = _
+            rw [denote_declPat, d1 g (by omega)]
+            simp only [dSet, dVal, members, Option.bind_some]
+            rw [hm ⟨g, by omega⟩]; rfl)
+        · exact Res.bad (by obtain ⟨fl, k, hb, hf⟩ := hbad; exact ⟨fl, k, by rw [hb]; rfl, hf⟩)
+      · exact Res.bad ⟨fl, k, by simp [hb, R.asSet], hf⟩
+  | @imp rz Γ value value' τ d lo hi bs _ hne hnτ hside _ _ ihb ihv =>
+    intro fuel p st ρ hinv hcov
+    cases fuel with
+    | zero => exact Res.zero ..
+    | succ f =>
+      rw [ev_imp]
+      have hemp : (bs.map Blk.core).isEmpty = false := by
+        cases bs with
+        | nil => exact absurd rfl hne
+        | cons _ _ => rfl
+      -- every block's variable has a slot
+      have hslot : ∀ b ∈ bs, b.slotOK c := by
+        intro b hb
+        obtain ⟨pre, post, rfl⟩ := List.append_of_mem hb
+        have hcb : Covered c.ids b.core := hcov.kid (List.mem_cons_of_mem _ (List.mem_map_of_mem (f := Blk.core) hb))
+        cases b with
+        | iter x dom dom' σ d' lo' hi' dlo dhi =>
+          exact hcb x (names_kid (k := .node .ID_LOCAL (.text x) dlo dhi []) (by simp) (by simp [names, namesKids, tok_beq]))
+        | asg x ex ex' σ d' lo' hi' dlo dhi =>
+          exact hcb x (names_kid (k := .node .ID_LOCAL (.text x) dlo dhi []) (by simp) (by simp [names, namesKids, tok_beq]))
+        | guard g g' => exact (hside pre _ post rfl).2.2
+      simp only [hemp, Bool.false_eq_true, if_false, impMetas_ok c bs hslot, List.length_map]
+      have hmeta : ∀ pre b post, bs = pre ++ b :: post → (bs.map (metaOf c))[pre.length]? = some (metaOf c b) := by
+        intro pre b post e
+        subst e
+        simp
+      have hkid : ∀ pre b post, bs = pre ++ b :: post →
+          (value' :: bs.map Blk.core)[pre.length + 1]? = some b.core := by
+        intro pre b post e
+        subst e
+        simp
+      have hcovb : ∀ pre b post, bs = pre ++ b :: post → Covered c.ids b.expr' := by
+        intro pre b post e
+        have hb : b ∈ bs := by rw [e]; simp
+        have hcb : Covered c.ids b.core := hcov.kid (List.mem_cons_of_mem _ (List.mem_map_of_mem (f := Blk.core) hb))
+        cases b with
+        | iter x dom dom' σ d' lo' hi' dlo dhi => exact hcb.kid (by simp [Blk.expr'])
+        | asg x ex ex' σ d' lo' hi' dlo dhi => exact hcb.kid (by simp [Blk.expr'])
+        | guard g g' => exact hcb
+      -- the slot guards
+      obtain ⟨saved, hguards, hsavedv, hsavedm⟩ := impGuards_ok st.data (bs.map (metaOf c)) (by
+        intro m hm hr
+        obtain ⟨b, hb, rfl⟩ := List.mem_map.mp hm
+        have hsl := hslot b hb
+        cases b with
+        | iter x dom dom' σ d' lo' hi' dlo dhi =>
+          obtain ⟨var, hv⟩ := hsl
+          simp only [metaOf, hv, Option.getD_some]
+          exact hinv.range x var hv
+        | asg x ex ex' σ d' lo' hi' dlo dhi =>
+          obtain ⟨var, hv⟩ := hsl
+          simp only [metaOf, hv, Option.getD_some]
+          exact hinv.range x var hv
+        | guard g g' => simp only [metaOf] at hr; rcases hr with hr | hr; exact absurd hr hsl.1; exact absurd hr hsl.2)
+      simp only [hguards]
+      have H : ImpHyp (ι := { g : Nat // f ≤ g }) env c rz Γ bs τ (bs.map (metaOf c)) saved
+          (impChild c f (value' :: bs.map Blk.core)) (impDom c f (value' :: bs.map Blk.core))
+          (fun i ρ' => dVal (denote (senvOf env) i.1 ρ' value))
+          (fun i ρ' x => dVal (denote (senvOf env) i.1 ρ' x))
+          (fun i ρ' x => dBool (denote (senvOf env) i.1 ρ' x)) := by
+        constructor
+        · intro pre x dom dom' σ d' lo' hi' dlo dhi post e
+          have hs := hside pre _ post e
+          obtain ⟨var, hvar⟩ := hslot (.iter x dom dom' σ d' lo' hi' dlo dhi) (by rw [e]; simp)
+          refine ⟨hs.1, hs.2.1, hs.2.2, var, hvar, by rw [hmeta pre _ post e]; simp [metaOf, hvar], ?_, ?_⟩
+          · have := hsavedm (metaOf c (.iter x dom dom' σ d' lo' hi' dlo dhi))
+              (List.mem_map_of_mem (f := metaOf c) (by rw [e]; simp)) (Or.inl rfl)
+            simpa [metaOf, hvar] using this
+          intro ρ' st' hi'
+          have hd : impDom c f (value' :: bs.map Blk.core) (pre.length + 1) st' = ev c f dom' (some .ITERATE) st' := by
+            simp [impDom, hkid pre _ post e, Blk.core, Ast.kids, Ast.id]
+          rw [hd]
+          rcases ihb pre _ post e f (some .ITERATE) st' ρ' hi' (hcovb pre _ post e) with
+            ⟨v, st'', hb, ⟨hp'', hm''⟩, w, n, hdn⟩ | hbad
+          · obtain ⟨xs, rfl⟩ := WF_coll_isSet w
+            exact Or.inl ⟨xs, st'', hb, hp'', hm'', w, by simpa [noAny_coll] using n, fun i => by
+              show dVal (denote (senvOf env) i.1 ρ' dom) = _
+              have h' := hdn i.1 i.2
+              simp only [Blk.expr] at h'
+              rw [h']; rfl⟩
+          · exact Or.inr hbad
+        · intro pre x ex ex' σ d' lo' hi' dlo dhi post e
+          have hs := hside pre _ post e
+          obtain ⟨var, hvar⟩ := hslot (.asg x ex ex' σ d' lo' hi' dlo dhi) (by rw [e]; simp)
+          refine ⟨hs.1, hs.2.1, hs.2.2, var, hvar, by rw [hmeta pre _ post e]; simp [metaOf, hvar], ?_, ?_⟩
+          · have := hsavedm (metaOf c (.asg x ex ex' σ d' lo' hi' dlo dhi))
+              (List.mem_map_of_mem (f := metaOf c) (by rw [e]; simp)) (Or.inr rfl)
+            simpa [metaOf, hvar] using this
+          intro ρ' st' hi'
+          have hd : impDom c f (value' :: bs.map Blk.core) (pre.length + 1) st' = ev c f ex' (some .ASSIGN) st' := by
+            simp [impDom, hkid pre _ post e, Blk.core, Ast.kids, Ast.id]
+          rw [hd]
+          rcases ihb pre _ post e f (some .ASSIGN) st' ρ' hi' (hcovb pre _ post e) with
+            ⟨v, st'', hb, ⟨hp'', hm''⟩, w, n, hdn⟩ | hbad
+          · exact Or.inl ⟨v, st'', hb, hp'', hm'', w, n, fun i => by
+              show dVal (denote (senvOf env) i.1 ρ' ex) = _
+              have h' := hdn i.1 i.2
+              simp only [Blk.expr] at h'
+              rw [h']; rfl⟩
+          · exact Or.inr hbad
+        · intro pre g g' post e
+          have hs := hside pre _ post e
+          refine ⟨hs.1, hs.2.1, ⟨metaOf c (.guard g g'), hmeta pre _ post e, hs.2.2.1, hs.2.2.2⟩, ?_⟩
+          intro ρ' st' hi'
+          have hd : impChild c f (value' :: bs.map Blk.core) (pre.length + 1) st' =
+              ev c f g' (some .NT_IMPERATIVE_EXPR) st' := by
+            simp [impChild, hkid pre _ post e, Blk.core]
+          rw [hd]
+          rcases ihb pre _ post e f (some .NT_IMPERATIVE_EXPR) st' ρ' hi' (hcovb pre _ post e) with
+            ⟨b, st'', hb, ⟨hp'', hm''⟩, hdn⟩ | hbad
+          · exact Or.inl ⟨b, st'', hb, hp'', hm'', fun i => by
+              show dBool (denote (senvOf env) i.1 ρ' g) = _
+              have h' := hdn i.1 i.2
+              simp only [Blk.expr] at h'
+              rw [h']; rfl⟩
+          · exact Or.inr hbad
+        · intro ρ' st' hi'
+          have hd : impChild c f (value' :: bs.map Blk.core) 0 st' = ev c f value' (some .NT_IMPERATIVE_EXPR) st' := by
+            simp [impChild]
+          rw [hd]
+          rcases ihv f (some .NT_IMPERATIVE_EXPR) st' ρ' hi' (hcov.kid (by simp)) with
+            ⟨v, st'', hb, ⟨hp'', hm''⟩, w, n, hdn⟩ | hbad
+          · exact Or.inl ⟨v, st'', hb, hp'', hm'', w, fun i => by
+              show dVal (denote (senvOf env) i.1 ρ' value) = _
+              rw [hdn i.1 i.2]; rfl⟩
+          · exact Or.inr hbad
+      have hrun := impLoop_sim env c rz Γ bs τ (bs.map (metaOf c)) saved st.data (impChild c f (value' :: bs.map Blk.core))
+        (impDom c f (value' :: bs.map Blk.core)) _ _ _ H ρ lo (MAX_ITERATIONS + 2) [] bs ρ [] [] st (by simp) hinv
+        (restoreAll_self saved st.data hsavedv) (Ext.refl env c rz (Γ, ρ)) (by simp) (WF_empty τ)
+      simp only [List.length_nil, stackOf, List.map_nil] at hrun
+      rcases hrun with ⟨L, st', e1, e2, eq', e3, e4, e5⟩ | hbad
+      · rw [e1]
+        exact Res.val rfl ⟨eq', e3⟩ e4 (by simpa [noAny_coll] using hnτ) (by
+          dsucc g hg
+          rw [denote_imp]
+          have := e5 ⟨g, hg⟩
+          simp only [remSem, framesSem, Option.map_some, List.append_nil] at this
+          cases hs : impSemB (fun ρ' => dVal (denote (senvOf env) g ρ' value)) (fun ρ' x => dVal (denote (senvOf env) g ρ' x))
+              (fun ρ' x => dBool (denote (senvOf env) g ρ' x)) bs ρ with
+          | none => simp [hs] at this
+          | some l =>
+            simp [hs] at this
+            subst this
+            simp only [impSemB] at hs
+            rw [hs]; rfl)
+      · exact Res.bad (by obtain ⟨fl, k, hb, hf⟩ := hbad; exact ⟨fl, k, by rw [hb]; rfl, hf⟩)
 
 end CCVerif.Eval
